@@ -474,6 +474,12 @@ module Z =
     | Zneg p -> (match y with
                  | Zneg q -> Pos.eqb p q
                  | _ -> false)
+
+  (** val of_N : n -> z **)
+
+  let of_N = function
+  | N0 -> Z0
+  | Npos p -> Zpos p
  end
 
 type ascii =
@@ -4428,3 +4434,2477 @@ let chk_C15 p o =
         (table_eqb func_sem_eqb (spec_funcs p) o.o_globals.g_funcs))
       (list_eqb ginstr_eqb (spec_gstack p) o.o_gstack))
     (Nat.eqb (length o.o_fns) (length (spec_fns p)))
+
+(** val cmpop_eqb : cmpop -> cmpop -> bool **)
+
+let cmpop_eqb a b =
+  match a with
+  | CGreat -> (match b with
+               | CGreat -> true
+               | _ -> false)
+  | CLess -> (match b with
+              | CLess -> true
+              | _ -> false)
+  | CEq -> (match b with
+            | CEq -> true
+            | _ -> false)
+  | CGreatEq -> (match b with
+                 | CGreatEq -> true
+                 | _ -> false)
+  | CLessEq -> (match b with
+                | CLessEq -> true
+                | _ -> false)
+  | CNotEq -> (match b with
+               | CNotEq -> true
+               | _ -> false)
+
+(** val logicop_eqb : logicop -> logicop -> bool **)
+
+let logicop_eqb a b =
+  match a with
+  | LAnd -> (match b with
+             | LAnd -> true
+             | LOr -> false)
+  | LOr -> (match b with
+            | LAnd -> false
+            | LOr -> true)
+
+(** val eres_val_eqb : eres_val -> eres_val -> bool **)
+
+let eres_val_eqb a b =
+  match a with
+  | RReg n0 -> (match b with
+                | RReg m0 -> N.eqb n0 m0
+                | RPrim _ -> false)
+  | RPrim p -> (match b with
+                | RReg _ -> false
+                | RPrim q -> prim_val_eqb p q)
+
+(** val eres_eqb : eres -> eres -> bool **)
+
+let eres_eqb a b =
+  (&&) (sem_ty_eqb a.r_ty b.r_ty) (eres_val_eqb a.r_val b.r_val)
+
+(** val instr_eqb : instr -> instr -> bool **)
+
+let instr_eqb a b =
+  match a with
+  | IExprValue (v, r) ->
+    (match b with
+     | IExprValue (v', r') -> (&&) (value_eqb v v') (N.eqb r r')
+     | _ -> false)
+  | IExprConst (c, r) ->
+    (match b with
+     | IExprConst (c', r') -> (&&) (const_sem_eqb c c') (N.eqb r r')
+     | _ -> false)
+  | IExprStruct (v, i, r) ->
+    (match b with
+     | IExprStruct (v', i', r') ->
+       (&&) ((&&) (value_eqb v v') (N.eqb i i')) (N.eqb r r')
+     | _ -> false)
+  | IExprOp (o, l, r, g) ->
+    (match b with
+     | IExprOp (o', l', r', g') ->
+       (&&) ((&&) ((&&) (binop_eqb0 o o') (eres_eqb l l')) (eres_eqb r r'))
+         (N.eqb g g')
+     | _ -> false)
+  | ICall (f, args, r) ->
+    (match b with
+     | ICall (f', args', r') ->
+       (&&) ((&&) (func_sem_eqb f f') (list_eqb eres_eqb args args'))
+         (N.eqb r r')
+     | _ -> false)
+  | ILet (v, e) ->
+    (match b with
+     | ILet (v', e') -> (&&) (value_eqb v v') (eres_eqb e e')
+     | _ -> false)
+  | IBind (v, e) ->
+    (match b with
+     | IBind (v', e') -> (&&) (value_eqb v v') (eres_eqb e e')
+     | _ -> false)
+  | IFnRet e -> (match b with
+                 | IFnRet e' -> eres_eqb e e'
+                 | _ -> false)
+  | IFnRetLabel e ->
+    (match b with
+     | IFnRetLabel e' -> eres_eqb e e'
+     | _ -> false)
+  | ISetLabel l -> (match b with
+                    | ISetLabel l' -> eqb1 l l'
+                    | _ -> false)
+  | IJumpTo l -> (match b with
+                  | IJumpTo l' -> eqb1 l l'
+                  | _ -> false)
+  | IIfCondExpr (e, x, y) ->
+    (match b with
+     | IIfCondExpr (e', x', y') ->
+       (&&) ((&&) (eres_eqb e e') (eqb1 x x')) (eqb1 y y')
+     | _ -> false)
+  | ICondExpr (l, r, c, g) ->
+    (match b with
+     | ICondExpr (l', r', c', g') ->
+       (&&) ((&&) ((&&) (eres_eqb l l') (eres_eqb r r')) (cmpop_eqb c c'))
+         (N.eqb g g')
+     | _ -> false)
+  | IJumpFnRet e -> (match b with
+                     | IJumpFnRet e' -> eres_eqb e e'
+                     | _ -> false)
+  | ILogic (o, x, y, g) ->
+    (match b with
+     | ILogic (o', x', y', g') ->
+       (&&) ((&&) ((&&) (logicop_eqb o o') (N.eqb x x')) (N.eqb y y'))
+         (N.eqb g g')
+     | _ -> false)
+  | IIfCondLogic (x, y, g) ->
+    (match b with
+     | IIfCondLogic (x', y', g') ->
+       (&&) ((&&) (eqb1 x x') (eqb1 y y')) (N.eqb g g')
+     | _ -> false)
+  | IFnArg (v, n0, t) ->
+    (match b with
+     | IFnArg (v', n', t') ->
+       (&&) ((&&) (value_eqb v v') (eqb1 n0 n')) (sem_ty_eqb t t')
+     | _ -> false)
+  | IExt (t, r) ->
+    (match b with
+     | IExt (t', r') -> (&&) (N.eqb t t') (N.eqb r r')
+     | _ -> false)
+
+(** val subseqb : ('a1 -> 'a1 -> bool) -> 'a1 list -> 'a1 list -> bool **)
+
+let rec subseqb eqb2 a = function
+| [] -> (match a with
+         | [] -> true
+         | _ :: _ -> false)
+| y :: b' ->
+  (match a with
+   | [] -> true
+   | x :: a' -> if eqb2 x y then subseqb eqb2 a' b' else subseqb eqb2 a b')
+
+(** val chk_tree_sub : block -> bool **)
+
+let rec chk_tree_sub b =
+  let { b_values = _; b_inner = _; b_labels = _; b_reg = _; b_mret = _;
+    b_ctx = ctx; b_kids = kids } = b
+  in
+  let rec go = function
+  | [] -> true
+  | k :: ks' ->
+    (&&) ((&&) (subseqb instr_eqb k.b_ctx ctx) (chk_tree_sub k)) (go ks')
+  in go kids
+
+(** val chk_C18_sub : output -> bool **)
+
+let chk_C18_sub o =
+  forallb chk_tree_sub o.o_fns
+
+type shape =
+| Sh of shape list
+
+(** val shape_of_block : block -> shape **)
+
+let rec shape_of_block b =
+  let { b_values = _; b_inner = _; b_labels = _; b_reg = _; b_mret = _;
+    b_ctx = _; b_kids = kids } = b
+  in
+  Sh (map shape_of_block kids)
+
+(** val shapes_stmt : stmt -> shape list **)
+
+let rec shapes_stmt = function
+| SIf i -> shapes_if i
+| SLoop body ->
+  (Sh
+    (let rec go = function
+     | [] -> []
+     | s' :: l' -> app (shapes_stmt s') (go l')
+     in go body)) :: []
+| _ -> []
+
+(** val shapes_if : ifstmt -> shape list **)
+
+and shapes_if = function
+| IfS (_, body, els, elif) ->
+  (Sh
+    (shapes_body body)) :: (match els with
+                            | Some eb -> (Sh (shapes_body eb)) :: []
+                            | None ->
+                              (match elif with
+                               | Some i' -> shapes_if i'
+                               | None -> []))
+
+(** val shapes_body : ifbody -> shape list **)
+
+and shapes_body = function
+| IBIf ss ->
+  let rec go = function
+  | [] -> []
+  | s' :: l' -> app (shapes_stmt s') (go l')
+  in go ss
+| IBLoop ss ->
+  let rec go = function
+  | [] -> []
+  | s' :: l' -> app (shapes_stmt s') (go l')
+  in go ss
+
+(** val shape_of_stmts : stmt list -> shape list **)
+
+let shape_of_stmts ss =
+  flat_map shapes_stmt ss
+
+(** val shape_eqb : shape -> shape -> bool **)
+
+let rec shape_eqb a b =
+  let Sh ka = a in
+  let Sh kb = b in
+  let rec go la lb =
+    match la with
+    | [] -> (match lb with
+             | [] -> true
+             | _ :: _ -> false)
+    | x :: la' ->
+      (match lb with
+       | [] -> false
+       | y :: lb' -> (&&) (shape_eqb x y) (go la' lb'))
+  in go ka kb
+
+(** val chk_C18_shape : program -> output -> bool **)
+
+let chk_C18_shape p o =
+  list_eqb shape_eqb (map shape_of_block o.o_fns)
+    (map (fun f -> Sh (shape_of_stmts f.fn_body)) (functions_of p))
+
+(** val chk_C18 : program -> output -> bool **)
+
+let chk_C18 p o =
+  (&&) (chk_C18_sub o) (chk_C18_shape p o)
+
+type json =
+| JNull
+| JBool of bool
+| JNum of z
+| JFloat32 of z
+| JFloat64 of z
+| JStr of string
+| JChar of z
+| JArr of json list
+| JObj of (string * json) list
+
+(** val tag0 : string -> json **)
+
+let tag0 t =
+  JObj (((String ((Ascii (false, false, true, false, true, true, true,
+    false)), (String ((Ascii (true, false, false, true, true, true, true,
+    false)), (String ((Ascii (false, false, false, false, true, true, true,
+    false)), (String ((Ascii (true, false, true, false, false, true, true,
+    false)), EmptyString)))))))), (JStr t)) :: [])
+
+(** val tagc : string -> json -> json **)
+
+let tagc t c =
+  JObj (((String ((Ascii (false, false, true, false, true, true, true,
+    false)), (String ((Ascii (true, false, false, true, true, true, true,
+    false)), (String ((Ascii (false, false, false, false, true, true, true,
+    false)), (String ((Ascii (true, false, true, false, false, true, true,
+    false)), EmptyString)))))))), (JStr t)) :: (((String ((Ascii (true, true,
+    false, false, false, true, true, false)), (String ((Ascii (true, true,
+    true, true, false, true, true, false)), (String ((Ascii (false, true,
+    true, true, false, true, true, false)), (String ((Ascii (false, false,
+    true, false, true, true, true, false)), (String ((Ascii (true, false,
+    true, false, false, true, true, false)), (String ((Ascii (false, true,
+    true, true, false, true, true, false)), (String ((Ascii (false, false,
+    true, false, true, true, true, false)), EmptyString)))))))))))))),
+    c) :: []))
+
+(** val enc_opt : ('a1 -> json) -> 'a1 option -> json **)
+
+let enc_opt f = function
+| Some a -> f a
+| None -> JNull
+
+(** val enc_N : n -> json **)
+
+let enc_N n0 =
+  JNum (Z.of_N n0)
+
+(** val enc_str : string -> json **)
+
+let enc_str s =
+  JStr s
+
+(** val enc_ident : ident -> json **)
+
+let enc_ident i =
+  JObj (((String ((Ascii (true, true, true, true, false, true, true, false)),
+    (String ((Ascii (false, true, true, false, false, true, true, false)),
+    (String ((Ascii (false, true, true, false, false, true, true, false)),
+    (String ((Ascii (true, true, false, false, true, true, true, false)),
+    (String ((Ascii (true, false, true, false, false, true, true, false)),
+    (String ((Ascii (false, false, true, false, true, true, true, false)),
+    EmptyString)))))))))))), (enc_N i.ioff)) :: (((String ((Ascii (false,
+    false, true, true, false, true, true, false)), (String ((Ascii (true,
+    false, false, true, false, true, true, false)), (String ((Ascii (false,
+    true, true, true, false, true, true, false)), (String ((Ascii (true,
+    false, true, false, false, true, true, false)), EmptyString)))))))),
+    (enc_N i.iline)) :: (((String ((Ascii (false, true, true, false, false,
+    true, true, false)), (String ((Ascii (false, true, false, false, true,
+    true, true, false)), (String ((Ascii (true, false, false, false, false,
+    true, true, false)), (String ((Ascii (true, true, true, false, false,
+    true, true, false)), (String ((Ascii (true, false, true, true, false,
+    true, true, false)), (String ((Ascii (true, false, true, false, false,
+    true, true, false)), (String ((Ascii (false, true, true, true, false,
+    true, true, false)), (String ((Ascii (false, false, true, false, true,
+    true, true, false)), EmptyString)))))))))))))))), (JStr
+    i.iname)) :: (((String ((Ascii (true, false, true, false, false, true,
+    true, false)), (String ((Ascii (false, false, false, true, true, true,
+    true, false)), (String ((Ascii (false, false, true, false, true, true,
+    true, false)), (String ((Ascii (false, true, false, false, true, true,
+    true, false)), (String ((Ascii (true, false, false, false, false, true,
+    true, false)), EmptyString)))))))))), JNull) :: []))))
+
+(** val enc_enum : ('a1 -> string) -> 'a1 -> json **)
+
+let enc_enum name x =
+  tag0 (name x)
+
+(** val enc_prim_ty : prim_ty -> json **)
+
+let enc_prim_ty =
+  enc_enum prim_ty_name
+
+(** val enc_binop : binop -> json **)
+
+let enc_binop =
+  enc_enum binop_name
+
+(** val enc_cmpop : cmpop -> json **)
+
+let enc_cmpop =
+  enc_enum cmpop_name
+
+(** val enc_logicop : logicop -> json **)
+
+let enc_logicop =
+  enc_enum logicop_name
+
+(** val enc_err_kind : err_kind -> json **)
+
+let enc_err_kind =
+  enc_enum err_kind_name
+
+(** val enc_prim_val : prim_val -> json **)
+
+let enc_prim_val p =
+  let b = p.pv_bits in
+  (match p.pv_ty with
+   | PF32 ->
+     tagc (String ((Ascii (false, true, true, false, false, false, true,
+       false)), (String ((Ascii (true, true, false, false, true, true, false,
+       false)), (String ((Ascii (false, true, false, false, true, true,
+       false, false)), EmptyString)))))) (JFloat32 b)
+   | PF64 ->
+     tagc (String ((Ascii (false, true, true, false, false, false, true,
+       false)), (String ((Ascii (false, true, true, false, true, true, false,
+       false)), (String ((Ascii (false, false, true, false, true, true,
+       false, false)), EmptyString)))))) (JFloat64 b)
+   | PBool ->
+     tagc (String ((Ascii (false, true, false, false, false, false, true,
+       false)), (String ((Ascii (true, true, true, true, false, true, true,
+       false)), (String ((Ascii (true, true, true, true, false, true, true,
+       false)), (String ((Ascii (false, false, true, true, false, true, true,
+       false)), EmptyString))))))))
+       (if Z.eqb b Z0
+        then JBool false
+        else if Z.eqb b (Zpos XH) then JBool true else JNum b)
+   | PChar ->
+     tagc (String ((Ascii (true, true, false, false, false, false, true,
+       false)), (String ((Ascii (false, false, false, true, false, true,
+       true, false)), (String ((Ascii (true, false, false, false, false,
+       true, true, false)), (String ((Ascii (false, true, false, false, true,
+       true, true, false)), EmptyString)))))))) (JChar b)
+   | PPtr ->
+     if Z.eqb b Z0
+     then tag0 (String ((Ascii (false, false, false, false, true, false,
+            true, false)), (String ((Ascii (false, false, true, false, true,
+            true, true, false)), (String ((Ascii (false, true, false, false,
+            true, true, true, false)), EmptyString))))))
+     else tagc (String ((Ascii (false, false, false, false, true, false,
+            true, false)), (String ((Ascii (false, false, true, false, true,
+            true, true, false)), (String ((Ascii (false, true, false, false,
+            true, true, true, false)), EmptyString)))))) (JNum b)
+   | PNone ->
+     if Z.eqb b Z0
+     then tag0 (String ((Ascii (false, true, true, true, false, false, true,
+            false)), (String ((Ascii (true, true, true, true, false, true,
+            true, false)), (String ((Ascii (false, true, true, true, false,
+            true, true, false)), (String ((Ascii (true, false, true, false,
+            false, true, true, false)), EmptyString))))))))
+     else tagc (String ((Ascii (false, true, true, true, false, false, true,
+            false)), (String ((Ascii (true, true, true, true, false, true,
+            true, false)), (String ((Ascii (false, true, true, true, false,
+            true, true, false)), (String ((Ascii (true, false, true, false,
+            false, true, true, false)), EmptyString)))))))) (JNum b)
+   | x -> tagc (prim_ty_name x) (JNum b))
+
+(** val enc_attr : ident -> json -> json **)
+
+let enc_attr x tj =
+  JObj (((String ((Ascii (true, false, false, false, false, true, true,
+    false)), (String ((Ascii (false, false, true, false, true, true, true,
+    false)), (String ((Ascii (false, false, true, false, true, true, true,
+    false)), (String ((Ascii (false, true, false, false, true, true, true,
+    false)), (String ((Ascii (true, true, true, true, true, false, true,
+    false)), (String ((Ascii (false, true, true, true, false, true, true,
+    false)), (String ((Ascii (true, false, false, false, false, true, true,
+    false)), (String ((Ascii (true, false, true, true, false, true, true,
+    false)), (String ((Ascii (true, false, true, false, false, true, true,
+    false)), EmptyString)))))))))))))))))), (enc_ident x)) :: (((String
+    ((Ascii (true, false, false, false, false, true, true, false)), (String
+    ((Ascii (false, false, true, false, true, true, true, false)), (String
+    ((Ascii (false, false, true, false, true, true, true, false)), (String
+    ((Ascii (false, true, false, false, true, true, true, false)), (String
+    ((Ascii (true, true, true, true, true, false, true, false)), (String
+    ((Ascii (false, false, true, false, true, true, true, false)), (String
+    ((Ascii (true, false, false, true, true, true, true, false)), (String
+    ((Ascii (false, false, false, false, true, true, true, false)), (String
+    ((Ascii (true, false, true, false, false, true, true, false)),
+    EmptyString)))))))))))))))))), tj) :: []))
+
+(** val enc_ast_ty : ast_ty -> json **)
+
+let rec enc_ast_ty = function
+| TPrim p ->
+  tagc (String ((Ascii (false, false, false, false, true, false, true,
+    false)), (String ((Ascii (false, true, false, false, true, true, true,
+    false)), (String ((Ascii (true, false, false, true, false, true, true,
+    false)), (String ((Ascii (true, false, true, true, false, true, true,
+    false)), (String ((Ascii (true, false, false, true, false, true, true,
+    false)), (String ((Ascii (false, false, true, false, true, true, true,
+    false)), (String ((Ascii (true, false, false, true, false, true, true,
+    false)), (String ((Ascii (false, true, true, false, true, true, true,
+    false)), (String ((Ascii (true, false, true, false, false, true, true,
+    false)), EmptyString)))))))))))))))))) (enc_prim_ty p)
+| TStruct (n0, attrs) ->
+  tagc (String ((Ascii (true, true, false, false, true, false, true, false)),
+    (String ((Ascii (false, false, true, false, true, true, true, false)),
+    (String ((Ascii (false, true, false, false, true, true, true, false)),
+    (String ((Ascii (true, false, true, false, true, true, true, false)),
+    (String ((Ascii (true, true, false, false, false, true, true, false)),
+    (String ((Ascii (false, false, true, false, true, true, true, false)),
+    EmptyString)))))))))))) (JObj (((String ((Ascii (false, true, true, true,
+    false, true, true, false)), (String ((Ascii (true, false, false, false,
+    false, true, true, false)), (String ((Ascii (true, false, true, true,
+    false, true, true, false)), (String ((Ascii (true, false, true, false,
+    false, true, true, false)), EmptyString)))))))),
+    (enc_ident n0)) :: (((String ((Ascii (true, false, false, false, false,
+    true, true, false)), (String ((Ascii (false, false, true, false, true,
+    true, true, false)), (String ((Ascii (false, false, true, false, true,
+    true, true, false)), (String ((Ascii (false, true, false, false, true,
+    true, true, false)), (String ((Ascii (true, false, false, true, false,
+    true, true, false)), (String ((Ascii (false, true, false, false, false,
+    true, true, false)), (String ((Ascii (true, false, true, false, true,
+    true, true, false)), (String ((Ascii (false, false, true, false, true,
+    true, true, false)), (String ((Ascii (true, false, true, false, false,
+    true, true, false)), (String ((Ascii (true, true, false, false, true,
+    true, true, false)), EmptyString)))))))))))))))))))), (JArr
+    (map (fun a -> let (x, t') = a in enc_attr x (enc_ast_ty t')) attrs))) :: [])))
+| TArray (t', n0) ->
+  tagc (String ((Ascii (true, false, false, false, false, false, true,
+    false)), (String ((Ascii (false, true, false, false, true, true, true,
+    false)), (String ((Ascii (false, true, false, false, true, true, true,
+    false)), (String ((Ascii (true, false, false, false, false, true, true,
+    false)), (String ((Ascii (true, false, false, true, true, true, true,
+    false)), EmptyString)))))))))) (JArr
+    ((enc_ast_ty t') :: ((enc_N n0) :: [])))
+
+(** val enc_struct_decl : ident -> (ident * ast_ty) list -> json **)
+
+let enc_struct_decl n0 attrs =
+  JObj (((String ((Ascii (false, true, true, true, false, true, true,
+    false)), (String ((Ascii (true, false, false, false, false, true, true,
+    false)), (String ((Ascii (true, false, true, true, false, true, true,
+    false)), (String ((Ascii (true, false, true, false, false, true, true,
+    false)), EmptyString)))))))), (enc_ident n0)) :: (((String ((Ascii (true,
+    false, false, false, false, true, true, false)), (String ((Ascii (false,
+    false, true, false, true, true, true, false)), (String ((Ascii (false,
+    false, true, false, true, true, true, false)), (String ((Ascii (false,
+    true, false, false, true, true, true, false)), (String ((Ascii (true,
+    false, false, true, false, true, true, false)), (String ((Ascii (false,
+    true, false, false, false, true, true, false)), (String ((Ascii (true,
+    false, true, false, true, true, true, false)), (String ((Ascii (false,
+    false, true, false, true, true, true, false)), (String ((Ascii (true,
+    false, true, false, false, true, true, false)), (String ((Ascii (true,
+    true, false, false, true, true, true, false)),
+    EmptyString)))))))))))))))))))), (JArr
+    (map (fun a -> let (x, t') = a in enc_attr x (enc_ast_ty t')) attrs))) :: []))
+
+(** val enc_sattr : string -> n -> json -> json **)
+
+let enc_sattr x i tj =
+  JObj (((String ((Ascii (true, false, false, false, false, true, true,
+    false)), (String ((Ascii (false, false, true, false, true, true, true,
+    false)), (String ((Ascii (false, false, true, false, true, true, true,
+    false)), (String ((Ascii (false, true, false, false, true, true, true,
+    false)), (String ((Ascii (true, true, true, true, true, false, true,
+    false)), (String ((Ascii (false, true, true, true, false, true, true,
+    false)), (String ((Ascii (true, false, false, false, false, true, true,
+    false)), (String ((Ascii (true, false, true, true, false, true, true,
+    false)), (String ((Ascii (true, false, true, false, false, true, true,
+    false)), EmptyString)))))))))))))))))), (JStr x)) :: (((String ((Ascii
+    (true, false, false, false, false, true, true, false)), (String ((Ascii
+    (false, false, true, false, true, true, true, false)), (String ((Ascii
+    (false, false, true, false, true, true, true, false)), (String ((Ascii
+    (false, true, false, false, true, true, true, false)), (String ((Ascii
+    (true, true, true, true, true, false, true, false)), (String ((Ascii
+    (true, false, false, true, false, true, true, false)), (String ((Ascii
+    (false, true, true, true, false, true, true, false)), (String ((Ascii
+    (false, false, true, false, false, true, true, false)), (String ((Ascii
+    (true, false, true, false, false, true, true, false)), (String ((Ascii
+    (false, false, false, true, true, true, true, false)),
+    EmptyString)))))))))))))))))))), (enc_N i)) :: (((String ((Ascii (true,
+    false, false, false, false, true, true, false)), (String ((Ascii (false,
+    false, true, false, true, true, true, false)), (String ((Ascii (false,
+    false, true, false, true, true, true, false)), (String ((Ascii (false,
+    true, false, false, true, true, true, false)), (String ((Ascii (true,
+    true, true, true, true, false, true, false)), (String ((Ascii (false,
+    false, true, false, true, true, true, false)), (String ((Ascii (true,
+    false, false, true, true, true, true, false)), (String ((Ascii (false,
+    false, false, false, true, true, true, false)), (String ((Ascii (true,
+    false, true, false, false, true, true, false)),
+    EmptyString)))))))))))))))))), tj) :: [])))
+
+(** val enc_sem_ty : sem_ty -> json **)
+
+let rec enc_sem_ty = function
+| SPrim p ->
+  tagc (String ((Ascii (false, false, false, false, true, false, true,
+    false)), (String ((Ascii (false, true, false, false, true, true, true,
+    false)), (String ((Ascii (true, false, false, true, false, true, true,
+    false)), (String ((Ascii (true, false, true, true, false, true, true,
+    false)), (String ((Ascii (true, false, false, true, false, true, true,
+    false)), (String ((Ascii (false, false, true, false, true, true, true,
+    false)), (String ((Ascii (true, false, false, true, false, true, true,
+    false)), (String ((Ascii (false, true, true, false, true, true, true,
+    false)), (String ((Ascii (true, false, true, false, false, true, true,
+    false)), EmptyString)))))))))))))))))) (enc_prim_ty p)
+| SStruct (n0, attrs) ->
+  tagc (String ((Ascii (true, true, false, false, true, false, true, false)),
+    (String ((Ascii (false, false, true, false, true, true, true, false)),
+    (String ((Ascii (false, true, false, false, true, true, true, false)),
+    (String ((Ascii (true, false, true, false, true, true, true, false)),
+    (String ((Ascii (true, true, false, false, false, true, true, false)),
+    (String ((Ascii (false, false, true, false, true, true, true, false)),
+    EmptyString)))))))))))) (JObj (((String ((Ascii (false, true, true, true,
+    false, true, true, false)), (String ((Ascii (true, false, false, false,
+    false, true, true, false)), (String ((Ascii (true, false, true, true,
+    false, true, true, false)), (String ((Ascii (true, false, true, false,
+    false, true, true, false)), EmptyString)))))))), (JStr n0)) :: (((String
+    ((Ascii (true, false, false, false, false, true, true, false)), (String
+    ((Ascii (false, false, true, false, true, true, true, false)), (String
+    ((Ascii (false, false, true, false, true, true, true, false)), (String
+    ((Ascii (false, true, false, false, true, true, true, false)), (String
+    ((Ascii (true, false, false, true, false, true, true, false)), (String
+    ((Ascii (false, true, false, false, false, true, true, false)), (String
+    ((Ascii (true, false, true, false, true, true, true, false)), (String
+    ((Ascii (false, false, true, false, true, true, true, false)), (String
+    ((Ascii (true, false, true, false, false, true, true, false)), (String
+    ((Ascii (true, true, false, false, true, true, true, false)),
+    EmptyString)))))))))))))))))))), (JObj
+    (map (fun a ->
+      let (y, t') = a in
+      let (x, i) = y in (x, (enc_sattr x i (enc_sem_ty t')))) attrs))) :: (((String
+    ((Ascii (true, false, true, true, false, true, true, false)), (String
+    ((Ascii (true, false, true, false, false, true, true, false)), (String
+    ((Ascii (false, false, true, false, true, true, true, false)), (String
+    ((Ascii (false, false, false, true, false, true, true, false)), (String
+    ((Ascii (true, true, true, true, false, true, true, false)), (String
+    ((Ascii (false, false, true, false, false, true, true, false)), (String
+    ((Ascii (true, true, false, false, true, true, true, false)),
+    EmptyString)))))))))))))), (JObj [])) :: []))))
+| SArray (t', n0) ->
+  tagc (String ((Ascii (true, false, false, false, false, false, true,
+    false)), (String ((Ascii (false, true, false, false, true, true, true,
+    false)), (String ((Ascii (false, true, false, false, true, true, true,
+    false)), (String ((Ascii (true, false, false, false, false, true, true,
+    false)), (String ((Ascii (true, false, false, true, true, true, true,
+    false)), EmptyString)))))))))) (JArr
+    ((enc_sem_ty t') :: ((enc_N n0) :: [])))
+
+(** val enc_sstruct_body : string -> ((string * n) * sem_ty) list -> json **)
+
+let enc_sstruct_body n0 attrs =
+  JObj (((String ((Ascii (false, true, true, true, false, true, true,
+    false)), (String ((Ascii (true, false, false, false, false, true, true,
+    false)), (String ((Ascii (true, false, true, true, false, true, true,
+    false)), (String ((Ascii (true, false, true, false, false, true, true,
+    false)), EmptyString)))))))), (JStr n0)) :: (((String ((Ascii (true,
+    false, false, false, false, true, true, false)), (String ((Ascii (false,
+    false, true, false, true, true, true, false)), (String ((Ascii (false,
+    false, true, false, true, true, true, false)), (String ((Ascii (false,
+    true, false, false, true, true, true, false)), (String ((Ascii (true,
+    false, false, true, false, true, true, false)), (String ((Ascii (false,
+    true, false, false, false, true, true, false)), (String ((Ascii (true,
+    false, true, false, true, true, true, false)), (String ((Ascii (false,
+    false, true, false, true, true, true, false)), (String ((Ascii (true,
+    false, true, false, false, true, true, false)), (String ((Ascii (true,
+    true, false, false, true, true, true, false)),
+    EmptyString)))))))))))))))))))), (JObj
+    (map (fun a ->
+      let (y, t') = a in
+      let (x, i) = y in (x, (enc_sattr x i (enc_sem_ty t')))) attrs))) :: (((String
+    ((Ascii (true, false, true, true, false, true, true, false)), (String
+    ((Ascii (true, false, true, false, false, true, true, false)), (String
+    ((Ascii (false, false, true, false, true, true, true, false)), (String
+    ((Ascii (false, false, false, true, false, true, true, false)), (String
+    ((Ascii (true, true, true, true, false, true, true, false)), (String
+    ((Ascii (false, false, true, false, false, true, true, false)), (String
+    ((Ascii (true, true, false, false, true, true, true, false)),
+    EmptyString)))))))))))))), (JObj [])) :: [])))
+
+(** val enc_chain : string -> json -> (binop * json) list -> json **)
+
+let rec enc_chain vk hv = function
+| [] ->
+  JObj ((vk, hv) :: (((String ((Ascii (true, true, true, true, false, true,
+    true, false)), (String ((Ascii (false, false, false, false, true, true,
+    true, false)), (String ((Ascii (true, false, true, false, false, true,
+    true, false)), (String ((Ascii (false, true, false, false, true, true,
+    true, false)), (String ((Ascii (true, false, false, false, false, true,
+    true, false)), (String ((Ascii (false, false, true, false, true, true,
+    true, false)), (String ((Ascii (true, false, false, true, false, true,
+    true, false)), (String ((Ascii (true, true, true, true, false, true,
+    true, false)), (String ((Ascii (false, true, true, true, false, true,
+    true, false)), EmptyString)))))))))))))))))), JNull) :: []))
+| p :: l' ->
+  let (op, v) = p in
+  JObj ((vk, hv) :: (((String ((Ascii (true, true, true, true, false, true,
+  true, false)), (String ((Ascii (false, false, false, false, true, true,
+  true, false)), (String ((Ascii (true, false, true, false, false, true,
+  true, false)), (String ((Ascii (false, true, false, false, true, true,
+  true, false)), (String ((Ascii (true, false, false, false, false, true,
+  true, false)), (String ((Ascii (false, false, true, false, true, true,
+  true, false)), (String ((Ascii (true, false, false, true, false, true,
+  true, false)), (String ((Ascii (true, true, true, true, false, true, true,
+  false)), (String ((Ascii (false, true, true, true, false, true, true,
+  false)), EmptyString)))))))))))))))))), (JArr
+  ((enc_binop op) :: ((enc_chain vk v l') :: [])))) :: []))
+
+(** val enc_cval : cval -> json **)
+
+let enc_cval = function
+| CConst x ->
+  tagc (String ((Ascii (true, true, false, false, false, false, true,
+    false)), (String ((Ascii (true, true, true, true, false, true, true,
+    false)), (String ((Ascii (false, true, true, true, false, true, true,
+    false)), (String ((Ascii (true, true, false, false, true, true, true,
+    false)), (String ((Ascii (false, false, true, false, true, true, true,
+    false)), (String ((Ascii (true, false, false, false, false, true, true,
+    false)), (String ((Ascii (false, true, true, true, false, true, true,
+    false)), (String ((Ascii (false, false, true, false, true, true, true,
+    false)), EmptyString)))))))))))))))) (enc_ident x)
+| CVal v ->
+  tagc (String ((Ascii (false, true, true, false, true, false, true, false)),
+    (String ((Ascii (true, false, false, false, false, true, true, false)),
+    (String ((Ascii (false, false, true, true, false, true, true, false)),
+    (String ((Ascii (true, false, true, false, true, true, true, false)),
+    (String ((Ascii (true, false, true, false, false, true, true, false)),
+    EmptyString)))))))))) (enc_prim_val v)
+
+(** val enc_cexpr : cexpr -> json **)
+
+let enc_cexpr e =
+  enc_chain (String ((Ascii (false, true, true, false, true, true, true,
+    false)), (String ((Ascii (true, false, false, false, false, true, true,
+    false)), (String ((Ascii (false, false, true, true, false, true, true,
+    false)), (String ((Ascii (true, false, true, false, true, true, true,
+    false)), (String ((Ascii (true, false, true, false, false, true, true,
+    false)), EmptyString)))))))))) (enc_cval e.ce_head)
+    (map (fun p -> ((fst p), (enc_cval (snd p)))) e.ce_rest)
+
+(** val genc_expr : (ast_ty -> json) -> expr -> json **)
+
+let genc_expr ext_enc =
+  let rec genc_expr0 = function
+  | Expr (v, rest) ->
+    enc_chain (String ((Ascii (true, false, true, false, false, true, true,
+      false)), (String ((Ascii (false, false, false, true, true, true, true,
+      false)), (String ((Ascii (false, false, false, false, true, true, true,
+      false)), (String ((Ascii (false, true, false, false, true, true, true,
+      false)), (String ((Ascii (true, false, true, false, false, true, true,
+      false)), (String ((Ascii (true, true, false, false, true, true, true,
+      false)), (String ((Ascii (true, true, false, false, true, true, true,
+      false)), (String ((Ascii (true, false, false, true, false, true, true,
+      false)), (String ((Ascii (true, true, true, true, false, true, true,
+      false)), (String ((Ascii (false, true, true, true, false, true, true,
+      false)), (String ((Ascii (true, true, true, true, true, false, true,
+      false)), (String ((Ascii (false, true, true, false, true, true, true,
+      false)), (String ((Ascii (true, false, false, false, false, true, true,
+      false)), (String ((Ascii (false, false, true, true, false, true, true,
+      false)), (String ((Ascii (true, false, true, false, true, true, true,
+      false)), (String ((Ascii (true, false, true, false, false, true, true,
+      false)), EmptyString)))))))))))))))))))))))))))))))) (genc_val v)
+      (map (fun p -> let (op, v') = p in (op, (genc_val v'))) rest)
+  and genc_val = function
+  | EVName x ->
+    tagc (String ((Ascii (false, true, true, false, true, false, true,
+      false)), (String ((Ascii (true, false, false, false, false, true, true,
+      false)), (String ((Ascii (false, false, true, true, false, true, true,
+      false)), (String ((Ascii (true, false, true, false, true, true, true,
+      false)), (String ((Ascii (true, false, true, false, false, true, true,
+      false)), (String ((Ascii (false, true, true, true, false, false, true,
+      false)), (String ((Ascii (true, false, false, false, false, true, true,
+      false)), (String ((Ascii (true, false, true, true, false, true, true,
+      false)), (String ((Ascii (true, false, true, false, false, true, true,
+      false)), EmptyString)))))))))))))))))) (enc_ident x)
+  | EVPrim p ->
+    tagc (String ((Ascii (false, false, false, false, true, false, true,
+      false)), (String ((Ascii (false, true, false, false, true, true, true,
+      false)), (String ((Ascii (true, false, false, true, false, true, true,
+      false)), (String ((Ascii (true, false, true, true, false, true, true,
+      false)), (String ((Ascii (true, false, false, true, false, true, true,
+      false)), (String ((Ascii (false, false, true, false, true, true, true,
+      false)), (String ((Ascii (true, false, false, true, false, true, true,
+      false)), (String ((Ascii (false, true, true, false, true, true, true,
+      false)), (String ((Ascii (true, false, true, false, false, true, true,
+      false)), (String ((Ascii (false, true, true, false, true, false, true,
+      false)), (String ((Ascii (true, false, false, false, false, true, true,
+      false)), (String ((Ascii (false, false, true, true, false, true, true,
+      false)), (String ((Ascii (true, false, true, false, true, true, true,
+      false)), (String ((Ascii (true, false, true, false, false, true, true,
+      false)), EmptyString)))))))))))))))))))))))))))) (enc_prim_val p)
+  | EVCall (f, args) ->
+    tagc (String ((Ascii (false, true, true, false, false, false, true,
+      false)), (String ((Ascii (true, false, true, false, true, true, true,
+      false)), (String ((Ascii (false, true, true, true, false, true, true,
+      false)), (String ((Ascii (true, true, false, false, false, true, true,
+      false)), (String ((Ascii (false, false, true, false, true, true, true,
+      false)), (String ((Ascii (true, false, false, true, false, true, true,
+      false)), (String ((Ascii (true, true, true, true, false, true, true,
+      false)), (String ((Ascii (false, true, true, true, false, true, true,
+      false)), (String ((Ascii (true, true, false, false, false, false, true,
+      false)), (String ((Ascii (true, false, false, false, false, true, true,
+      false)), (String ((Ascii (false, false, true, true, false, true, true,
+      false)), (String ((Ascii (false, false, true, true, false, true, true,
+      false)), EmptyString)))))))))))))))))))))))) (JObj (((String ((Ascii
+      (false, true, true, true, false, true, true, false)), (String ((Ascii
+      (true, false, false, false, false, true, true, false)), (String ((Ascii
+      (true, false, true, true, false, true, true, false)), (String ((Ascii
+      (true, false, true, false, false, true, true, false)),
+      EmptyString)))))))), (enc_ident f)) :: (((String ((Ascii (false, false,
+      false, false, true, true, true, false)), (String ((Ascii (true, false,
+      false, false, false, true, true, false)), (String ((Ascii (false, true,
+      false, false, true, true, true, false)), (String ((Ascii (true, false,
+      false, false, false, true, true, false)), (String ((Ascii (true, false,
+      true, true, false, true, true, false)), (String ((Ascii (true, false,
+      true, false, false, true, true, false)), (String ((Ascii (false, false,
+      true, false, true, true, true, false)), (String ((Ascii (true, false,
+      true, false, false, true, true, false)), (String ((Ascii (false, true,
+      false, false, true, true, true, false)), (String ((Ascii (true, true,
+      false, false, true, true, true, false)),
+      EmptyString)))))))))))))))))))), (JArr (map genc_expr0 args))) :: [])))
+  | EVField (x, a) ->
+    tagc (String ((Ascii (true, true, false, false, true, false, true,
+      false)), (String ((Ascii (false, false, true, false, true, true, true,
+      false)), (String ((Ascii (false, true, false, false, true, true, true,
+      false)), (String ((Ascii (true, false, true, false, true, true, true,
+      false)), (String ((Ascii (true, true, false, false, false, true, true,
+      false)), (String ((Ascii (false, false, true, false, true, true, true,
+      false)), (String ((Ascii (false, true, true, false, true, false, true,
+      false)), (String ((Ascii (true, false, false, false, false, true, true,
+      false)), (String ((Ascii (false, false, true, true, false, true, true,
+      false)), (String ((Ascii (true, false, true, false, true, true, true,
+      false)), (String ((Ascii (true, false, true, false, false, true, true,
+      false)), EmptyString)))))))))))))))))))))) (JObj (((String ((Ascii
+      (false, true, true, true, false, true, true, false)), (String ((Ascii
+      (true, false, false, false, false, true, true, false)), (String ((Ascii
+      (true, false, true, true, false, true, true, false)), (String ((Ascii
+      (true, false, true, false, false, true, true, false)),
+      EmptyString)))))))), (enc_ident x)) :: (((String ((Ascii (true, false,
+      false, false, false, true, true, false)), (String ((Ascii (false,
+      false, true, false, true, true, true, false)), (String ((Ascii (false,
+      false, true, false, true, true, true, false)), (String ((Ascii (false,
+      true, false, false, true, true, true, false)), (String ((Ascii (true,
+      false, false, true, false, true, true, false)), (String ((Ascii (false,
+      true, false, false, false, true, true, false)), (String ((Ascii (true,
+      false, true, false, true, true, true, false)), (String ((Ascii (false,
+      false, true, false, true, true, true, false)), (String ((Ascii (true,
+      false, true, false, false, true, true, false)),
+      EmptyString)))))))))))))))))), (enc_ident a)) :: [])))
+  | EVSub e ->
+    tagc (String ((Ascii (true, false, true, false, false, false, true,
+      false)), (String ((Ascii (false, false, false, true, true, true, true,
+      false)), (String ((Ascii (false, false, false, false, true, true, true,
+      false)), (String ((Ascii (false, true, false, false, true, true, true,
+      false)), (String ((Ascii (true, false, true, false, false, true, true,
+      false)), (String ((Ascii (true, true, false, false, true, true, true,
+      false)), (String ((Ascii (true, true, false, false, true, true, true,
+      false)), (String ((Ascii (true, false, false, true, false, true, true,
+      false)), (String ((Ascii (true, true, true, true, false, true, true,
+      false)), (String ((Ascii (false, true, true, true, false, true, true,
+      false)), EmptyString)))))))))))))))))))) (genc_expr0 e)
+  | EVExt (t, tag) ->
+    tagc (String ((Ascii (true, false, true, false, false, false, true,
+      false)), (String ((Ascii (false, false, false, true, true, true, true,
+      false)), (String ((Ascii (false, false, true, false, true, true, true,
+      false)), (String ((Ascii (true, false, true, false, false, true, true,
+      false)), (String ((Ascii (false, true, true, true, false, true, true,
+      false)), (String ((Ascii (false, false, true, false, false, true, true,
+      false)), (String ((Ascii (true, false, true, false, false, true, true,
+      false)), (String ((Ascii (false, false, true, false, false, true, true,
+      false)), (String ((Ascii (true, false, true, false, false, false, true,
+      false)), (String ((Ascii (false, false, false, true, true, true, true,
+      false)), (String ((Ascii (false, false, false, false, true, true, true,
+      false)), (String ((Ascii (false, true, false, false, true, true, true,
+      false)), (String ((Ascii (true, false, true, false, false, true, true,
+      false)), (String ((Ascii (true, true, false, false, true, true, true,
+      false)), (String ((Ascii (true, true, false, false, true, true, true,
+      false)), (String ((Ascii (true, false, false, true, false, true, true,
+      false)), (String ((Ascii (true, true, true, true, false, true, true,
+      false)), (String ((Ascii (false, true, true, true, false, true, true,
+      false)), EmptyString)))))))))))))))))))))))))))))))))))) (JObj
+      (((String ((Ascii (false, false, true, false, true, true, true,
+      false)), (String ((Ascii (true, false, false, true, true, true, true,
+      false)), EmptyString)))), (ext_enc t)) :: (((String ((Ascii (false,
+      false, true, false, true, true, true, false)), (String ((Ascii (true,
+      false, false, false, false, true, true, false)), (String ((Ascii (true,
+      true, true, false, false, true, true, false)), EmptyString)))))),
+      (enc_N tag)) :: [])))
+  in genc_expr0
+
+(** val genc_lcond : (ast_ty -> json) -> lcond -> json **)
+
+let rec genc_lcond ext_enc = function
+| LC (l, op, r, next) ->
+  JObj (((String ((Ascii (false, false, true, true, false, true, true,
+    false)), (String ((Ascii (true, false, true, false, false, true, true,
+    false)), (String ((Ascii (false, true, true, false, false, true, true,
+    false)), (String ((Ascii (false, false, true, false, true, true, true,
+    false)), EmptyString)))))))), (JObj (((String ((Ascii (false, false,
+    true, true, false, true, true, false)), (String ((Ascii (true, false,
+    true, false, false, true, true, false)), (String ((Ascii (false, true,
+    true, false, false, true, true, false)), (String ((Ascii (false, false,
+    true, false, true, true, true, false)), EmptyString)))))))),
+    (genc_expr ext_enc l)) :: (((String ((Ascii (true, true, false, false,
+    false, true, true, false)), (String ((Ascii (true, true, true, true,
+    false, true, true, false)), (String ((Ascii (false, true, true, true,
+    false, true, true, false)), (String ((Ascii (false, false, true, false,
+    false, true, true, false)), (String ((Ascii (true, false, false, true,
+    false, true, true, false)), (String ((Ascii (false, false, true, false,
+    true, true, true, false)), (String ((Ascii (true, false, false, true,
+    false, true, true, false)), (String ((Ascii (true, true, true, true,
+    false, true, true, false)), (String ((Ascii (false, true, true, true,
+    false, true, true, false)), EmptyString)))))))))))))))))),
+    (enc_cmpop op)) :: (((String ((Ascii (false, true, false, false, true,
+    true, true, false)), (String ((Ascii (true, false, false, true, false,
+    true, true, false)), (String ((Ascii (true, true, true, false, false,
+    true, true, false)), (String ((Ascii (false, false, false, true, false,
+    true, true, false)), (String ((Ascii (false, false, true, false, true,
+    true, true, false)), EmptyString)))))))))),
+    (genc_expr ext_enc r)) :: []))))) :: (((String ((Ascii (false, true,
+    false, false, true, true, true, false)), (String ((Ascii (true, false,
+    false, true, false, true, true, false)), (String ((Ascii (true, true,
+    true, false, false, true, true, false)), (String ((Ascii (false, false,
+    false, true, false, true, true, false)), (String ((Ascii (false, false,
+    true, false, true, true, true, false)), EmptyString)))))))))),
+    (match next with
+     | Some p ->
+       let (lop, c') = p in
+       JArr ((enc_logicop lop) :: ((genc_lcond ext_enc c') :: []))
+     | None -> JNull)) :: []))
+
+(** val genc_cond : (ast_ty -> json) -> cond -> json **)
+
+let genc_cond ext_enc = function
+| CSingle e ->
+  tagc (String ((Ascii (true, true, false, false, true, false, true, false)),
+    (String ((Ascii (true, false, false, true, false, true, true, false)),
+    (String ((Ascii (false, true, true, true, false, true, true, false)),
+    (String ((Ascii (true, true, true, false, false, true, true, false)),
+    (String ((Ascii (false, false, true, true, false, true, true, false)),
+    (String ((Ascii (true, false, true, false, false, true, true, false)),
+    EmptyString)))))))))))) (genc_expr ext_enc e)
+| CLogic l ->
+  tagc (String ((Ascii (false, false, true, true, false, false, true,
+    false)), (String ((Ascii (true, true, true, true, false, true, true,
+    false)), (String ((Ascii (true, true, true, false, false, true, true,
+    false)), (String ((Ascii (true, false, false, true, false, true, true,
+    false)), (String ((Ascii (true, true, false, false, false, true, true,
+    false)), EmptyString)))))))))) (genc_lcond ext_enc l)
+
+(** val genc_stmt : (ast_ty -> json) -> stmt -> json **)
+
+let genc_stmt ext_enc =
+  let rec genc_stmt0 = function
+  | SLet (x, m0, ty, e) ->
+    tagc (String ((Ascii (false, false, true, true, false, false, true,
+      false)), (String ((Ascii (true, false, true, false, false, true, true,
+      false)), (String ((Ascii (false, false, true, false, true, true, true,
+      false)), (String ((Ascii (false, true, false, false, false, false,
+      true, false)), (String ((Ascii (true, false, false, true, false, true,
+      true, false)), (String ((Ascii (false, true, true, true, false, true,
+      true, false)), (String ((Ascii (false, false, true, false, false, true,
+      true, false)), (String ((Ascii (true, false, false, true, false, true,
+      true, false)), (String ((Ascii (false, true, true, true, false, true,
+      true, false)), (String ((Ascii (true, true, true, false, false, true,
+      true, false)), EmptyString)))))))))))))))))))) (JObj (((String ((Ascii
+      (false, false, true, false, true, true, true, false)), (String ((Ascii
+      (true, false, false, true, true, true, true, false)), (String ((Ascii
+      (false, false, false, false, true, true, true, false)), (String ((Ascii
+      (true, false, true, false, false, true, true, false)),
+      EmptyString)))))))), (JStr (String ((Ascii (false, false, true, true,
+      false, false, true, false)), (String ((Ascii (true, false, true, false,
+      false, true, true, false)), (String ((Ascii (false, false, true, false,
+      true, true, true, false)), (String ((Ascii (false, true, false, false,
+      false, false, true, false)), (String ((Ascii (true, false, false, true,
+      false, true, true, false)), (String ((Ascii (false, true, true, true,
+      false, true, true, false)), (String ((Ascii (false, false, true, false,
+      false, true, true, false)), (String ((Ascii (true, false, false, true,
+      false, true, true, false)), (String ((Ascii (false, true, true, true,
+      false, true, true, false)), (String ((Ascii (true, true, true, false,
+      false, true, true, false)),
+      EmptyString)))))))))))))))))))))) :: (((String ((Ascii (false, true,
+      true, true, false, true, true, false)), (String ((Ascii (true, false,
+      false, false, false, true, true, false)), (String ((Ascii (true, false,
+      true, true, false, true, true, false)), (String ((Ascii (true, false,
+      true, false, false, true, true, false)), EmptyString)))))))),
+      (enc_ident x)) :: (((String ((Ascii (true, false, true, true, false,
+      true, true, false)), (String ((Ascii (true, false, true, false, true,
+      true, true, false)), (String ((Ascii (false, false, true, false, true,
+      true, true, false)), (String ((Ascii (true, false, false, false, false,
+      true, true, false)), (String ((Ascii (false, true, false, false, false,
+      true, true, false)), (String ((Ascii (false, false, true, true, false,
+      true, true, false)), (String ((Ascii (true, false, true, false, false,
+      true, true, false)), EmptyString)))))))))))))), (JBool
+      m0)) :: (((String ((Ascii (false, true, true, false, true, true, true,
+      false)), (String ((Ascii (true, false, false, false, false, true, true,
+      false)), (String ((Ascii (false, false, true, true, false, true, true,
+      false)), (String ((Ascii (true, false, true, false, true, true, true,
+      false)), (String ((Ascii (true, false, true, false, false, true, true,
+      false)), (String ((Ascii (true, true, true, true, true, false, true,
+      false)), (String ((Ascii (false, false, true, false, true, true, true,
+      false)), (String ((Ascii (true, false, false, true, true, true, true,
+      false)), (String ((Ascii (false, false, false, false, true, true, true,
+      false)), (String ((Ascii (true, false, true, false, false, true, true,
+      false)), EmptyString)))))))))))))))))))),
+      (enc_opt enc_ast_ty ty)) :: (((String ((Ascii (false, true, true,
+      false, true, true, true, false)), (String ((Ascii (true, false, false,
+      false, false, true, true, false)), (String ((Ascii (false, false, true,
+      true, false, true, true, false)), (String ((Ascii (true, false, true,
+      false, true, true, true, false)), (String ((Ascii (true, false, true,
+      false, false, true, true, false)), EmptyString)))))))))),
+      (genc_expr ext_enc e)) :: []))))))
+  | SBind (x, e) ->
+    tagc (String ((Ascii (false, true, false, false, false, false, true,
+      false)), (String ((Ascii (true, false, false, true, false, true, true,
+      false)), (String ((Ascii (false, true, true, true, false, true, true,
+      false)), (String ((Ascii (false, false, true, false, false, true, true,
+      false)), (String ((Ascii (true, false, false, true, false, true, true,
+      false)), (String ((Ascii (false, true, true, true, false, true, true,
+      false)), (String ((Ascii (true, true, true, false, false, true, true,
+      false)), EmptyString)))))))))))))) (JObj (((String ((Ascii (false,
+      true, true, true, false, true, true, false)), (String ((Ascii (true,
+      false, false, false, false, true, true, false)), (String ((Ascii (true,
+      false, true, true, false, true, true, false)), (String ((Ascii (true,
+      false, true, false, false, true, true, false)), EmptyString)))))))),
+      (enc_ident x)) :: (((String ((Ascii (false, true, true, false, true,
+      true, true, false)), (String ((Ascii (true, false, false, false, false,
+      true, true, false)), (String ((Ascii (false, false, true, true, false,
+      true, true, false)), (String ((Ascii (true, false, true, false, true,
+      true, true, false)), (String ((Ascii (true, false, true, false, false,
+      true, true, false)), EmptyString)))))))))),
+      (genc_expr ext_enc e)) :: [])))
+  | SCall (f, args) ->
+    tagc (String ((Ascii (false, true, true, false, false, false, true,
+      false)), (String ((Ascii (true, false, true, false, true, true, true,
+      false)), (String ((Ascii (false, true, true, true, false, true, true,
+      false)), (String ((Ascii (true, true, false, false, false, true, true,
+      false)), (String ((Ascii (false, false, true, false, true, true, true,
+      false)), (String ((Ascii (true, false, false, true, false, true, true,
+      false)), (String ((Ascii (true, true, true, true, false, true, true,
+      false)), (String ((Ascii (false, true, true, true, false, true, true,
+      false)), (String ((Ascii (true, true, false, false, false, false, true,
+      false)), (String ((Ascii (true, false, false, false, false, true, true,
+      false)), (String ((Ascii (false, false, true, true, false, true, true,
+      false)), (String ((Ascii (false, false, true, true, false, true, true,
+      false)), EmptyString)))))))))))))))))))))))) (JObj (((String ((Ascii
+      (false, true, true, true, false, true, true, false)), (String ((Ascii
+      (true, false, false, false, false, true, true, false)), (String ((Ascii
+      (true, false, true, true, false, true, true, false)), (String ((Ascii
+      (true, false, true, false, false, true, true, false)),
+      EmptyString)))))))), (enc_ident f)) :: (((String ((Ascii (false, false,
+      false, false, true, true, true, false)), (String ((Ascii (true, false,
+      false, false, false, true, true, false)), (String ((Ascii (false, true,
+      false, false, true, true, true, false)), (String ((Ascii (true, false,
+      false, false, false, true, true, false)), (String ((Ascii (true, false,
+      true, true, false, true, true, false)), (String ((Ascii (true, false,
+      true, false, false, true, true, false)), (String ((Ascii (false, false,
+      true, false, true, true, true, false)), (String ((Ascii (true, false,
+      true, false, false, true, true, false)), (String ((Ascii (false, true,
+      false, false, true, true, true, false)), (String ((Ascii (true, true,
+      false, false, true, true, true, false)),
+      EmptyString)))))))))))))))))))), (JArr
+      (map (genc_expr ext_enc) args))) :: [])))
+  | SIf i ->
+    tagc (String ((Ascii (true, false, false, true, false, false, true,
+      false)), (String ((Ascii (false, true, true, false, false, true, true,
+      false)), EmptyString)))) (genc_if i)
+  | SLoop body ->
+    tagc (String ((Ascii (false, false, true, true, false, false, true,
+      false)), (String ((Ascii (true, true, true, true, false, true, true,
+      false)), (String ((Ascii (true, true, true, true, false, true, true,
+      false)), (String ((Ascii (false, false, false, false, true, true, true,
+      false)), EmptyString)))))))) (JArr (map genc_stmt0 body))
+  | SRet e ->
+    tagc (String ((Ascii (false, true, false, false, true, false, true,
+      false)), (String ((Ascii (true, false, true, false, false, true, true,
+      false)), (String ((Ascii (false, false, true, false, true, true, true,
+      false)), (String ((Ascii (true, false, true, false, true, true, true,
+      false)), (String ((Ascii (false, true, false, false, true, true, true,
+      false)), (String ((Ascii (false, true, true, true, false, true, true,
+      false)), EmptyString)))))))))))) (genc_expr ext_enc e)
+  | SExprStmt e ->
+    tagc (String ((Ascii (true, false, true, false, false, false, true,
+      false)), (String ((Ascii (false, false, false, true, true, true, true,
+      false)), (String ((Ascii (false, false, false, false, true, true, true,
+      false)), (String ((Ascii (false, true, false, false, true, true, true,
+      false)), (String ((Ascii (true, false, true, false, false, true, true,
+      false)), (String ((Ascii (true, true, false, false, true, true, true,
+      false)), (String ((Ascii (true, true, false, false, true, true, true,
+      false)), (String ((Ascii (true, false, false, true, false, true, true,
+      false)), (String ((Ascii (true, true, true, true, false, true, true,
+      false)), (String ((Ascii (false, true, true, true, false, true, true,
+      false)), EmptyString)))))))))))))))))))) (genc_expr ext_enc e)
+  | SBreak ->
+    tag0 (String ((Ascii (false, true, false, false, false, false, true,
+      false)), (String ((Ascii (false, true, false, false, true, true, true,
+      false)), (String ((Ascii (true, false, true, false, false, true, true,
+      false)), (String ((Ascii (true, false, false, false, false, true, true,
+      false)), (String ((Ascii (true, true, false, true, false, true, true,
+      false)), EmptyString))))))))))
+  | SContinue ->
+    tag0 (String ((Ascii (true, true, false, false, false, false, true,
+      false)), (String ((Ascii (true, true, true, true, false, true, true,
+      false)), (String ((Ascii (false, true, true, true, false, true, true,
+      false)), (String ((Ascii (false, false, true, false, true, true, true,
+      false)), (String ((Ascii (true, false, false, true, false, true, true,
+      false)), (String ((Ascii (false, true, true, true, false, true, true,
+      false)), (String ((Ascii (true, false, true, false, true, true, true,
+      false)), (String ((Ascii (true, false, true, false, false, true, true,
+      false)), EmptyString))))))))))))))))
+  and genc_if = function
+  | IfS (c, body, els, elif) ->
+    JObj (((String ((Ascii (true, true, false, false, false, true, true,
+      false)), (String ((Ascii (true, true, true, true, false, true, true,
+      false)), (String ((Ascii (false, true, true, true, false, true, true,
+      false)), (String ((Ascii (false, false, true, false, false, true, true,
+      false)), (String ((Ascii (true, false, false, true, false, true, true,
+      false)), (String ((Ascii (false, false, true, false, true, true, true,
+      false)), (String ((Ascii (true, false, false, true, false, true, true,
+      false)), (String ((Ascii (true, true, true, true, false, true, true,
+      false)), (String ((Ascii (false, true, true, true, false, true, true,
+      false)), EmptyString)))))))))))))))))),
+      (genc_cond ext_enc c)) :: (((String ((Ascii (false, true, false, false,
+      false, true, true, false)), (String ((Ascii (true, true, true, true,
+      false, true, true, false)), (String ((Ascii (false, false, true, false,
+      false, true, true, false)), (String ((Ascii (true, false, false, true,
+      true, true, true, false)), EmptyString)))))))),
+      (genc_ifbody body)) :: (((String ((Ascii (true, false, true, false,
+      false, true, true, false)), (String ((Ascii (false, false, true, true,
+      false, true, true, false)), (String ((Ascii (true, true, false, false,
+      true, true, true, false)), (String ((Ascii (true, false, true, false,
+      false, true, true, false)), (String ((Ascii (true, true, true, true,
+      true, false, true, false)), (String ((Ascii (true, true, false, false,
+      true, true, true, false)), (String ((Ascii (false, false, true, false,
+      true, true, true, false)), (String ((Ascii (true, false, false, false,
+      false, true, true, false)), (String ((Ascii (false, false, true, false,
+      true, true, true, false)), (String ((Ascii (true, false, true, false,
+      false, true, true, false)), (String ((Ascii (true, false, true, true,
+      false, true, true, false)), (String ((Ascii (true, false, true, false,
+      false, true, true, false)), (String ((Ascii (false, true, true, true,
+      false, true, true, false)), (String ((Ascii (false, false, true, false,
+      true, true, true, false)), EmptyString)))))))))))))))))))))))))))),
+      (match els with
+       | Some b -> genc_ifbody b
+       | None -> JNull)) :: (((String ((Ascii (true, false, true, false,
+      false, true, true, false)), (String ((Ascii (false, false, true, true,
+      false, true, true, false)), (String ((Ascii (true, true, false, false,
+      true, true, true, false)), (String ((Ascii (true, false, true, false,
+      false, true, true, false)), (String ((Ascii (true, true, true, true,
+      true, false, true, false)), (String ((Ascii (true, false, false, true,
+      false, true, true, false)), (String ((Ascii (false, true, true, false,
+      false, true, true, false)), (String ((Ascii (true, true, true, true,
+      true, false, true, false)), (String ((Ascii (true, true, false, false,
+      true, true, true, false)), (String ((Ascii (false, false, true, false,
+      true, true, true, false)), (String ((Ascii (true, false, false, false,
+      false, true, true, false)), (String ((Ascii (false, false, true, false,
+      true, true, true, false)), (String ((Ascii (true, false, true, false,
+      false, true, true, false)), (String ((Ascii (true, false, true, true,
+      false, true, true, false)), (String ((Ascii (true, false, true, false,
+      false, true, true, false)), (String ((Ascii (false, true, true, true,
+      false, true, true, false)), (String ((Ascii (false, false, true, false,
+      true, true, true, false)),
+      EmptyString)))))))))))))))))))))))))))))))))),
+      (match elif with
+       | Some i' -> genc_if i'
+       | None -> JNull)) :: []))))
+  and genc_ifbody = function
+  | IBIf ss ->
+    tagc (String ((Ascii (true, false, false, true, false, false, true,
+      false)), (String ((Ascii (false, true, true, false, false, true, true,
+      false)), EmptyString)))) (JArr (map genc_stmt0 ss))
+  | IBLoop ss ->
+    tagc (String ((Ascii (false, false, true, true, false, false, true,
+      false)), (String ((Ascii (true, true, true, true, false, true, true,
+      false)), (String ((Ascii (true, true, true, true, false, true, true,
+      false)), (String ((Ascii (false, false, false, false, true, true, true,
+      false)), EmptyString)))))))) (JArr (map genc_stmt0 ss))
+  in genc_stmt0
+
+(** val enc_param : (ident * ast_ty) -> json **)
+
+let enc_param p =
+  JObj (((String ((Ascii (false, true, true, true, false, true, true,
+    false)), (String ((Ascii (true, false, false, false, false, true, true,
+    false)), (String ((Ascii (true, false, true, true, false, true, true,
+    false)), (String ((Ascii (true, false, true, false, false, true, true,
+    false)), EmptyString)))))))), (enc_ident (fst p))) :: (((String ((Ascii
+    (false, false, false, false, true, true, true, false)), (String ((Ascii
+    (true, false, false, false, false, true, true, false)), (String ((Ascii
+    (false, true, false, false, true, true, true, false)), (String ((Ascii
+    (true, false, false, false, false, true, true, false)), (String ((Ascii
+    (true, false, true, true, false, true, true, false)), (String ((Ascii
+    (true, false, true, false, false, true, true, false)), (String ((Ascii
+    (false, false, true, false, true, true, true, false)), (String ((Ascii
+    (true, false, true, false, false, true, true, false)), (String ((Ascii
+    (false, true, false, false, true, true, true, false)), (String ((Ascii
+    (true, true, true, true, true, false, true, false)), (String ((Ascii
+    (false, false, true, false, true, true, true, false)), (String ((Ascii
+    (true, false, false, true, true, true, true, false)), (String ((Ascii
+    (false, false, false, false, true, true, true, false)), (String ((Ascii
+    (true, false, true, false, false, true, true, false)),
+    EmptyString)))))))))))))))))))))))))))), (enc_ast_ty (snd p))) :: []))
+
+(** val genc_fn : (ast_ty -> json) -> fn_decl -> json **)
+
+let genc_fn ext_enc f =
+  JObj (((String ((Ascii (false, true, true, true, false, true, true,
+    false)), (String ((Ascii (true, false, false, false, false, true, true,
+    false)), (String ((Ascii (true, false, true, true, false, true, true,
+    false)), (String ((Ascii (true, false, true, false, false, true, true,
+    false)), EmptyString)))))))), (enc_ident f.fn_name)) :: (((String ((Ascii
+    (false, false, false, false, true, true, true, false)), (String ((Ascii
+    (true, false, false, false, false, true, true, false)), (String ((Ascii
+    (false, true, false, false, true, true, true, false)), (String ((Ascii
+    (true, false, false, false, false, true, true, false)), (String ((Ascii
+    (true, false, true, true, false, true, true, false)), (String ((Ascii
+    (true, false, true, false, false, true, true, false)), (String ((Ascii
+    (false, false, true, false, true, true, true, false)), (String ((Ascii
+    (true, false, true, false, false, true, true, false)), (String ((Ascii
+    (false, true, false, false, true, true, true, false)), (String ((Ascii
+    (true, true, false, false, true, true, true, false)),
+    EmptyString)))))))))))))))))))), (JArr
+    (map enc_param f.fn_params))) :: (((String ((Ascii (false, true, false,
+    false, true, true, true, false)), (String ((Ascii (true, false, true,
+    false, false, true, true, false)), (String ((Ascii (true, true, false,
+    false, true, true, true, false)), (String ((Ascii (true, false, true,
+    false, true, true, true, false)), (String ((Ascii (false, false, true,
+    true, false, true, true, false)), (String ((Ascii (false, false, true,
+    false, true, true, true, false)), (String ((Ascii (true, true, true,
+    true, true, false, true, false)), (String ((Ascii (false, false, true,
+    false, true, true, true, false)), (String ((Ascii (true, false, false,
+    true, true, true, true, false)), (String ((Ascii (false, false, false,
+    false, true, true, true, false)), (String ((Ascii (true, false, true,
+    false, false, true, true, false)), EmptyString)))))))))))))))))))))),
+    (enc_ast_ty f.fn_result)) :: (((String ((Ascii (false, true, false,
+    false, false, true, true, false)), (String ((Ascii (true, true, true,
+    true, false, true, true, false)), (String ((Ascii (false, false, true,
+    false, false, true, true, false)), (String ((Ascii (true, false, false,
+    true, true, true, true, false)), EmptyString)))))))), (JArr
+    (map (genc_stmt ext_enc) f.fn_body))) :: (((String ((Ascii (true, true,
+    true, true, true, false, true, false)), (String ((Ascii (true, false,
+    true, true, false, true, true, false)), (String ((Ascii (true, false,
+    false, false, false, true, true, false)), (String ((Ascii (false, true,
+    false, false, true, true, true, false)), (String ((Ascii (true, true,
+    false, true, false, true, true, false)), (String ((Ascii (true, false,
+    true, false, false, true, true, false)), (String ((Ascii (false, true,
+    false, false, true, true, true, false)), EmptyString)))))))))))))),
+    JNull) :: [])))))
+
+(** val genc_top : (ast_ty -> json) -> top -> json **)
+
+let genc_top ext_enc = function
+| TImport path ->
+  tagc (String ((Ascii (true, false, false, true, false, false, true,
+    false)), (String ((Ascii (true, false, true, true, false, true, true,
+    false)), (String ((Ascii (false, false, false, false, true, true, true,
+    false)), (String ((Ascii (true, true, true, true, false, true, true,
+    false)), (String ((Ascii (false, true, false, false, true, true, true,
+    false)), (String ((Ascii (false, false, true, false, true, true, true,
+    false)), EmptyString)))))))))))) (JArr (map enc_ident path))
+| TStructDecl (n0, attrs) ->
+  tagc (String ((Ascii (false, false, true, false, true, false, true,
+    false)), (String ((Ascii (true, false, false, true, true, true, true,
+    false)), (String ((Ascii (false, false, false, false, true, true, true,
+    false)), (String ((Ascii (true, false, true, false, false, true, true,
+    false)), (String ((Ascii (true, true, false, false, true, true, true,
+    false)), EmptyString)))))))))) (enc_struct_decl n0 attrs)
+| TConst (n0, ty, v) ->
+  tagc (String ((Ascii (true, true, false, false, false, false, true,
+    false)), (String ((Ascii (true, true, true, true, false, true, true,
+    false)), (String ((Ascii (false, true, true, true, false, true, true,
+    false)), (String ((Ascii (true, true, false, false, true, true, true,
+    false)), (String ((Ascii (false, false, true, false, true, true, true,
+    false)), (String ((Ascii (true, false, false, false, false, true, true,
+    false)), (String ((Ascii (false, true, true, true, false, true, true,
+    false)), (String ((Ascii (false, false, true, false, true, true, true,
+    false)), EmptyString)))))))))))))))) (JObj (((String ((Ascii (false,
+    true, true, true, false, true, true, false)), (String ((Ascii (true,
+    false, false, false, false, true, true, false)), (String ((Ascii (true,
+    false, true, true, false, true, true, false)), (String ((Ascii (true,
+    false, true, false, false, true, true, false)), EmptyString)))))))),
+    (enc_ident n0)) :: (((String ((Ascii (true, true, false, false, false,
+    true, true, false)), (String ((Ascii (true, true, true, true, false,
+    true, true, false)), (String ((Ascii (false, true, true, true, false,
+    true, true, false)), (String ((Ascii (true, true, false, false, true,
+    true, true, false)), (String ((Ascii (false, false, true, false, true,
+    true, true, false)), (String ((Ascii (true, false, false, false, false,
+    true, true, false)), (String ((Ascii (false, true, true, true, false,
+    true, true, false)), (String ((Ascii (false, false, true, false, true,
+    true, true, false)), (String ((Ascii (true, true, true, true, true,
+    false, true, false)), (String ((Ascii (false, false, true, false, true,
+    true, true, false)), (String ((Ascii (true, false, false, true, true,
+    true, true, false)), (String ((Ascii (false, false, false, false, true,
+    true, true, false)), (String ((Ascii (true, false, true, false, false,
+    true, true, false)), EmptyString)))))))))))))))))))))))))),
+    (enc_ast_ty ty)) :: (((String ((Ascii (true, true, false, false, false,
+    true, true, false)), (String ((Ascii (true, true, true, true, false,
+    true, true, false)), (String ((Ascii (false, true, true, true, false,
+    true, true, false)), (String ((Ascii (true, true, false, false, true,
+    true, true, false)), (String ((Ascii (false, false, true, false, true,
+    true, true, false)), (String ((Ascii (true, false, false, false, false,
+    true, true, false)), (String ((Ascii (false, true, true, true, false,
+    true, true, false)), (String ((Ascii (false, false, true, false, true,
+    true, true, false)), (String ((Ascii (true, true, true, true, true,
+    false, true, false)), (String ((Ascii (false, true, true, false, true,
+    true, true, false)), (String ((Ascii (true, false, false, false, false,
+    true, true, false)), (String ((Ascii (false, false, true, true, false,
+    true, true, false)), (String ((Ascii (true, false, true, false, true,
+    true, true, false)), (String ((Ascii (true, false, true, false, false,
+    true, true, false)), EmptyString)))))))))))))))))))))))))))),
+    (enc_cexpr v)) :: []))))
+| TFn f ->
+  tagc (String ((Ascii (false, true, true, false, false, false, true,
+    false)), (String ((Ascii (true, false, true, false, true, true, true,
+    false)), (String ((Ascii (false, true, true, true, false, true, true,
+    false)), (String ((Ascii (true, true, false, false, false, true, true,
+    false)), (String ((Ascii (false, false, true, false, true, true, true,
+    false)), (String ((Ascii (true, false, false, true, false, true, true,
+    false)), (String ((Ascii (true, true, true, true, false, true, true,
+    false)), (String ((Ascii (false, true, true, true, false, true, true,
+    false)), EmptyString)))))))))))))))) (genc_fn ext_enc f)
+
+(** val genc_program : (ast_ty -> json) -> program -> json **)
+
+let genc_program ext_enc p =
+  JArr (map (genc_top ext_enc) p)
+
+(** val enc_program : program -> json **)
+
+let enc_program =
+  genc_program enc_ast_ty
+
+(** val enc_value : value -> json **)
+
+let enc_value v =
+  JObj (((String ((Ascii (true, false, false, true, false, true, true,
+    false)), (String ((Ascii (false, true, true, true, false, true, true,
+    false)), (String ((Ascii (false, true, true, true, false, true, true,
+    false)), (String ((Ascii (true, false, true, false, false, true, true,
+    false)), (String ((Ascii (false, true, false, false, true, true, true,
+    false)), (String ((Ascii (true, true, true, true, true, false, true,
+    false)), (String ((Ascii (false, true, true, true, false, true, true,
+    false)), (String ((Ascii (true, false, false, false, false, true, true,
+    false)), (String ((Ascii (true, false, true, true, false, true, true,
+    false)), (String ((Ascii (true, false, true, false, false, true, true,
+    false)), EmptyString)))))))))))))))))))), (JStr v.v_inner)) :: (((String
+    ((Ascii (true, false, false, true, false, true, true, false)), (String
+    ((Ascii (false, true, true, true, false, true, true, false)), (String
+    ((Ascii (false, true, true, true, false, true, true, false)), (String
+    ((Ascii (true, false, true, false, false, true, true, false)), (String
+    ((Ascii (false, true, false, false, true, true, true, false)), (String
+    ((Ascii (true, true, true, true, true, false, true, false)), (String
+    ((Ascii (false, false, true, false, true, true, true, false)), (String
+    ((Ascii (true, false, false, true, true, true, true, false)), (String
+    ((Ascii (false, false, false, false, true, true, true, false)), (String
+    ((Ascii (true, false, true, false, false, true, true, false)),
+    EmptyString)))))))))))))))))))), (enc_sem_ty v.v_ty)) :: (((String
+    ((Ascii (true, false, true, true, false, true, true, false)), (String
+    ((Ascii (true, false, true, false, true, true, true, false)), (String
+    ((Ascii (false, false, true, false, true, true, true, false)), (String
+    ((Ascii (true, false, false, false, false, true, true, false)), (String
+    ((Ascii (false, true, false, false, false, true, true, false)), (String
+    ((Ascii (false, false, true, true, false, true, true, false)), (String
+    ((Ascii (true, false, true, false, false, true, true, false)),
+    EmptyString)))))))))))))), (JBool v.v_mut)) :: (((String ((Ascii (true,
+    false, false, false, false, true, true, false)), (String ((Ascii (false,
+    false, true, true, false, true, true, false)), (String ((Ascii (false,
+    false, true, true, false, true, true, false)), (String ((Ascii (true,
+    true, true, true, false, true, true, false)), (String ((Ascii (true,
+    true, false, false, false, true, true, false)), (String ((Ascii (true,
+    false, false, false, false, true, true, false)), EmptyString)))))))))))),
+    (JBool false)) :: (((String ((Ascii (true, false, true, true, false,
+    true, true, false)), (String ((Ascii (true, false, false, false, false,
+    true, true, false)), (String ((Ascii (false, false, true, true, false,
+    true, true, false)), (String ((Ascii (false, false, true, true, false,
+    true, true, false)), (String ((Ascii (true, true, true, true, false,
+    true, true, false)), (String ((Ascii (true, true, false, false, false,
+    true, true, false)), EmptyString)))))))))))), (JBool false)) :: [])))))
+
+(** val enc_eres_val : eres_val -> json **)
+
+let enc_eres_val = function
+| RReg n0 ->
+  tagc (String ((Ascii (false, true, false, false, true, false, true,
+    false)), (String ((Ascii (true, false, true, false, false, true, true,
+    false)), (String ((Ascii (true, true, true, false, false, true, true,
+    false)), (String ((Ascii (true, false, false, true, false, true, true,
+    false)), (String ((Ascii (true, true, false, false, true, true, true,
+    false)), (String ((Ascii (false, false, true, false, true, true, true,
+    false)), (String ((Ascii (true, false, true, false, false, true, true,
+    false)), (String ((Ascii (false, true, false, false, true, true, true,
+    false)), EmptyString)))))))))))))))) (enc_N n0)
+| RPrim p ->
+  tagc (String ((Ascii (false, false, false, false, true, false, true,
+    false)), (String ((Ascii (false, true, false, false, true, true, true,
+    false)), (String ((Ascii (true, false, false, true, false, true, true,
+    false)), (String ((Ascii (true, false, true, true, false, true, true,
+    false)), (String ((Ascii (true, false, false, true, false, true, true,
+    false)), (String ((Ascii (false, false, true, false, true, true, true,
+    false)), (String ((Ascii (true, false, false, true, false, true, true,
+    false)), (String ((Ascii (false, true, true, false, true, true, true,
+    false)), (String ((Ascii (true, false, true, false, false, true, true,
+    false)), (String ((Ascii (false, true, true, false, true, false, true,
+    false)), (String ((Ascii (true, false, false, false, false, true, true,
+    false)), (String ((Ascii (false, false, true, true, false, true, true,
+    false)), (String ((Ascii (true, false, true, false, true, true, true,
+    false)), (String ((Ascii (true, false, true, false, false, true, true,
+    false)), EmptyString)))))))))))))))))))))))))))) (enc_prim_val p)
+
+(** val enc_eres : eres -> json **)
+
+let enc_eres e =
+  JObj (((String ((Ascii (true, false, true, false, false, true, true,
+    false)), (String ((Ascii (false, false, false, true, true, true, true,
+    false)), (String ((Ascii (false, false, false, false, true, true, true,
+    false)), (String ((Ascii (false, true, false, false, true, true, true,
+    false)), (String ((Ascii (true, true, true, true, true, false, true,
+    false)), (String ((Ascii (false, false, true, false, true, true, true,
+    false)), (String ((Ascii (true, false, false, true, true, true, true,
+    false)), (String ((Ascii (false, false, false, false, true, true, true,
+    false)), (String ((Ascii (true, false, true, false, false, true, true,
+    false)), EmptyString)))))))))))))))))), (enc_sem_ty e.r_ty)) :: (((String
+    ((Ascii (true, false, true, false, false, true, true, false)), (String
+    ((Ascii (false, false, false, true, true, true, true, false)), (String
+    ((Ascii (false, false, false, false, true, true, true, false)), (String
+    ((Ascii (false, true, false, false, true, true, true, false)), (String
+    ((Ascii (true, true, true, true, true, false, true, false)), (String
+    ((Ascii (false, true, true, false, true, true, true, false)), (String
+    ((Ascii (true, false, false, false, false, true, true, false)), (String
+    ((Ascii (false, false, true, true, false, true, true, false)), (String
+    ((Ascii (true, false, true, false, true, true, true, false)), (String
+    ((Ascii (true, false, true, false, false, true, true, false)),
+    EmptyString)))))))))))))))))))), (enc_eres_val e.r_val)) :: []))
+
+(** val enc_cval_sem : cval_sem -> json **)
+
+let enc_cval_sem = function
+| CCs n0 ->
+  tagc (String ((Ascii (true, true, false, false, false, false, true,
+    false)), (String ((Ascii (true, true, true, true, false, true, true,
+    false)), (String ((Ascii (false, true, true, true, false, true, true,
+    false)), (String ((Ascii (true, true, false, false, true, true, true,
+    false)), (String ((Ascii (false, false, true, false, true, true, true,
+    false)), (String ((Ascii (true, false, false, false, false, true, true,
+    false)), (String ((Ascii (false, true, true, true, false, true, true,
+    false)), (String ((Ascii (false, false, true, false, true, true, true,
+    false)), EmptyString)))))))))))))))) (JStr n0)
+| CVs v ->
+  tagc (String ((Ascii (false, true, true, false, true, false, true, false)),
+    (String ((Ascii (true, false, false, false, false, true, true, false)),
+    (String ((Ascii (false, false, true, true, false, true, true, false)),
+    (String ((Ascii (true, false, true, false, true, true, true, false)),
+    (String ((Ascii (true, false, true, false, false, true, true, false)),
+    EmptyString)))))))))) (enc_prim_val v)
+
+(** val enc_const_sem : const_sem -> json **)
+
+let enc_const_sem c =
+  JObj (((String ((Ascii (false, true, true, true, false, true, true,
+    false)), (String ((Ascii (true, false, false, false, false, true, true,
+    false)), (String ((Ascii (true, false, true, true, false, true, true,
+    false)), (String ((Ascii (true, false, true, false, false, true, true,
+    false)), EmptyString)))))))), (JStr c.c_name)) :: (((String ((Ascii
+    (true, true, false, false, false, true, true, false)), (String ((Ascii
+    (true, true, true, true, false, true, true, false)), (String ((Ascii
+    (false, true, true, true, false, true, true, false)), (String ((Ascii
+    (true, true, false, false, true, true, true, false)), (String ((Ascii
+    (false, false, true, false, true, true, true, false)), (String ((Ascii
+    (true, false, false, false, false, true, true, false)), (String ((Ascii
+    (false, true, true, true, false, true, true, false)), (String ((Ascii
+    (false, false, true, false, true, true, true, false)), (String ((Ascii
+    (true, true, true, true, true, false, true, false)), (String ((Ascii
+    (false, false, true, false, true, true, true, false)), (String ((Ascii
+    (true, false, false, true, true, true, true, false)), (String ((Ascii
+    (false, false, false, false, true, true, true, false)), (String ((Ascii
+    (true, false, true, false, false, true, true, false)),
+    EmptyString)))))))))))))))))))))))))), (enc_sem_ty c.c_ty)) :: (((String
+    ((Ascii (true, true, false, false, false, true, true, false)), (String
+    ((Ascii (true, true, true, true, false, true, true, false)), (String
+    ((Ascii (false, true, true, true, false, true, true, false)), (String
+    ((Ascii (true, true, false, false, true, true, true, false)), (String
+    ((Ascii (false, false, true, false, true, true, true, false)), (String
+    ((Ascii (true, false, false, false, false, true, true, false)), (String
+    ((Ascii (false, true, true, true, false, true, true, false)), (String
+    ((Ascii (false, false, true, false, true, true, true, false)), (String
+    ((Ascii (true, true, true, true, true, false, true, false)), (String
+    ((Ascii (false, true, true, false, true, true, true, false)), (String
+    ((Ascii (true, false, false, false, false, true, true, false)), (String
+    ((Ascii (false, false, true, true, false, true, true, false)), (String
+    ((Ascii (true, false, true, false, true, true, true, false)), (String
+    ((Ascii (true, false, true, false, false, true, true, false)),
+    EmptyString)))))))))))))))))))))))))))),
+    (enc_chain (String ((Ascii (false, true, true, false, true, true, true,
+      false)), (String ((Ascii (true, false, false, false, false, true, true,
+      false)), (String ((Ascii (false, false, true, true, false, true, true,
+      false)), (String ((Ascii (true, false, true, false, true, true, true,
+      false)), (String ((Ascii (true, false, true, false, false, true, true,
+      false)), EmptyString)))))))))) (enc_cval_sem c.c_head)
+      (map (fun p -> ((fst p), (enc_cval_sem (snd p)))) c.c_rest))) :: [])))
+
+(** val enc_func_sem : func_sem -> json **)
+
+let enc_func_sem f =
+  JObj (((String ((Ascii (true, false, false, true, false, true, true,
+    false)), (String ((Ascii (false, true, true, true, false, true, true,
+    false)), (String ((Ascii (false, true, true, true, false, true, true,
+    false)), (String ((Ascii (true, false, true, false, false, true, true,
+    false)), (String ((Ascii (false, true, false, false, true, true, true,
+    false)), (String ((Ascii (true, true, true, true, true, false, true,
+    false)), (String ((Ascii (false, true, true, true, false, true, true,
+    false)), (String ((Ascii (true, false, false, false, false, true, true,
+    false)), (String ((Ascii (true, false, true, true, false, true, true,
+    false)), (String ((Ascii (true, false, true, false, false, true, true,
+    false)), EmptyString)))))))))))))))))))), (JStr f.f_name)) :: (((String
+    ((Ascii (true, false, false, true, false, true, true, false)), (String
+    ((Ascii (false, true, true, true, false, true, true, false)), (String
+    ((Ascii (false, true, true, true, false, true, true, false)), (String
+    ((Ascii (true, false, true, false, false, true, true, false)), (String
+    ((Ascii (false, true, false, false, true, true, true, false)), (String
+    ((Ascii (true, true, true, true, true, false, true, false)), (String
+    ((Ascii (false, false, true, false, true, true, true, false)), (String
+    ((Ascii (true, false, false, true, true, true, true, false)), (String
+    ((Ascii (false, false, false, false, true, true, true, false)), (String
+    ((Ascii (true, false, true, false, false, true, true, false)),
+    EmptyString)))))))))))))))))))), (enc_sem_ty f.f_ty)) :: (((String
+    ((Ascii (false, false, false, false, true, true, true, false)), (String
+    ((Ascii (true, false, false, false, false, true, true, false)), (String
+    ((Ascii (false, true, false, false, true, true, true, false)), (String
+    ((Ascii (true, false, false, false, false, true, true, false)), (String
+    ((Ascii (true, false, true, true, false, true, true, false)), (String
+    ((Ascii (true, false, true, false, false, true, true, false)), (String
+    ((Ascii (false, false, true, false, true, true, true, false)), (String
+    ((Ascii (true, false, true, false, false, true, true, false)), (String
+    ((Ascii (false, true, false, false, true, true, true, false)), (String
+    ((Ascii (true, true, false, false, true, true, true, false)),
+    EmptyString)))))))))))))))))))), (JArr
+    (map enc_sem_ty f.f_params))) :: [])))
+
+(** val enc_instr : instr -> json **)
+
+let enc_instr = function
+| IExprValue (v, r) ->
+  tagc (String ((Ascii (true, false, true, false, false, false, true,
+    false)), (String ((Ascii (false, false, false, true, true, true, true,
+    false)), (String ((Ascii (false, false, false, false, true, true, true,
+    false)), (String ((Ascii (false, true, false, false, true, true, true,
+    false)), (String ((Ascii (true, false, true, false, false, true, true,
+    false)), (String ((Ascii (true, true, false, false, true, true, true,
+    false)), (String ((Ascii (true, true, false, false, true, true, true,
+    false)), (String ((Ascii (true, false, false, true, false, true, true,
+    false)), (String ((Ascii (true, true, true, true, false, true, true,
+    false)), (String ((Ascii (false, true, true, true, false, true, true,
+    false)), (String ((Ascii (false, true, true, false, true, false, true,
+    false)), (String ((Ascii (true, false, false, false, false, true, true,
+    false)), (String ((Ascii (false, false, true, true, false, true, true,
+    false)), (String ((Ascii (true, false, true, false, true, true, true,
+    false)), (String ((Ascii (true, false, true, false, false, true, true,
+    false)), EmptyString)))))))))))))))))))))))))))))) (JObj (((String
+    ((Ascii (true, false, true, false, false, true, true, false)), (String
+    ((Ascii (false, false, false, true, true, true, true, false)), (String
+    ((Ascii (false, false, false, false, true, true, true, false)), (String
+    ((Ascii (false, true, false, false, true, true, true, false)), (String
+    ((Ascii (true, false, true, false, false, true, true, false)), (String
+    ((Ascii (true, true, false, false, true, true, true, false)), (String
+    ((Ascii (true, true, false, false, true, true, true, false)), (String
+    ((Ascii (true, false, false, true, false, true, true, false)), (String
+    ((Ascii (true, true, true, true, false, true, true, false)), (String
+    ((Ascii (false, true, true, true, false, true, true, false)),
+    EmptyString)))))))))))))))))))), (enc_value v)) :: (((String ((Ascii
+    (false, true, false, false, true, true, true, false)), (String ((Ascii
+    (true, false, true, false, false, true, true, false)), (String ((Ascii
+    (true, true, true, false, false, true, true, false)), (String ((Ascii
+    (true, false, false, true, false, true, true, false)), (String ((Ascii
+    (true, true, false, false, true, true, true, false)), (String ((Ascii
+    (false, false, true, false, true, true, true, false)), (String ((Ascii
+    (true, false, true, false, false, true, true, false)), (String ((Ascii
+    (false, true, false, false, true, true, true, false)), (String ((Ascii
+    (true, true, true, true, true, false, true, false)), (String ((Ascii
+    (false, true, true, true, false, true, true, false)), (String ((Ascii
+    (true, false, true, false, true, true, true, false)), (String ((Ascii
+    (true, false, true, true, false, true, true, false)), (String ((Ascii
+    (false, true, false, false, false, true, true, false)), (String ((Ascii
+    (true, false, true, false, false, true, true, false)), (String ((Ascii
+    (false, true, false, false, true, true, true, false)),
+    EmptyString)))))))))))))))))))))))))))))), (enc_N r)) :: [])))
+| IExprConst (c, r) ->
+  tagc (String ((Ascii (true, false, true, false, false, false, true,
+    false)), (String ((Ascii (false, false, false, true, true, true, true,
+    false)), (String ((Ascii (false, false, false, false, true, true, true,
+    false)), (String ((Ascii (false, true, false, false, true, true, true,
+    false)), (String ((Ascii (true, false, true, false, false, true, true,
+    false)), (String ((Ascii (true, true, false, false, true, true, true,
+    false)), (String ((Ascii (true, true, false, false, true, true, true,
+    false)), (String ((Ascii (true, false, false, true, false, true, true,
+    false)), (String ((Ascii (true, true, true, true, false, true, true,
+    false)), (String ((Ascii (false, true, true, true, false, true, true,
+    false)), (String ((Ascii (true, true, false, false, false, false, true,
+    false)), (String ((Ascii (true, true, true, true, false, true, true,
+    false)), (String ((Ascii (false, true, true, true, false, true, true,
+    false)), (String ((Ascii (true, true, false, false, true, true, true,
+    false)), (String ((Ascii (false, false, true, false, true, true, true,
+    false)), EmptyString)))))))))))))))))))))))))))))) (JObj (((String
+    ((Ascii (true, false, true, false, false, true, true, false)), (String
+    ((Ascii (false, false, false, true, true, true, true, false)), (String
+    ((Ascii (false, false, false, false, true, true, true, false)), (String
+    ((Ascii (false, true, false, false, true, true, true, false)), (String
+    ((Ascii (true, false, true, false, false, true, true, false)), (String
+    ((Ascii (true, true, false, false, true, true, true, false)), (String
+    ((Ascii (true, true, false, false, true, true, true, false)), (String
+    ((Ascii (true, false, false, true, false, true, true, false)), (String
+    ((Ascii (true, true, true, true, false, true, true, false)), (String
+    ((Ascii (false, true, true, true, false, true, true, false)),
+    EmptyString)))))))))))))))))))), (enc_const_sem c)) :: (((String ((Ascii
+    (false, true, false, false, true, true, true, false)), (String ((Ascii
+    (true, false, true, false, false, true, true, false)), (String ((Ascii
+    (true, true, true, false, false, true, true, false)), (String ((Ascii
+    (true, false, false, true, false, true, true, false)), (String ((Ascii
+    (true, true, false, false, true, true, true, false)), (String ((Ascii
+    (false, false, true, false, true, true, true, false)), (String ((Ascii
+    (true, false, true, false, false, true, true, false)), (String ((Ascii
+    (false, true, false, false, true, true, true, false)), (String ((Ascii
+    (true, true, true, true, true, false, true, false)), (String ((Ascii
+    (false, true, true, true, false, true, true, false)), (String ((Ascii
+    (true, false, true, false, true, true, true, false)), (String ((Ascii
+    (true, false, true, true, false, true, true, false)), (String ((Ascii
+    (false, true, false, false, false, true, true, false)), (String ((Ascii
+    (true, false, true, false, false, true, true, false)), (String ((Ascii
+    (false, true, false, false, true, true, true, false)),
+    EmptyString)))))))))))))))))))))))))))))), (enc_N r)) :: [])))
+| IExprStruct (v, idx, r) ->
+  tagc (String ((Ascii (true, false, true, false, false, false, true,
+    false)), (String ((Ascii (false, false, false, true, true, true, true,
+    false)), (String ((Ascii (false, false, false, false, true, true, true,
+    false)), (String ((Ascii (false, true, false, false, true, true, true,
+    false)), (String ((Ascii (true, false, true, false, false, true, true,
+    false)), (String ((Ascii (true, true, false, false, true, true, true,
+    false)), (String ((Ascii (true, true, false, false, true, true, true,
+    false)), (String ((Ascii (true, false, false, true, false, true, true,
+    false)), (String ((Ascii (true, true, true, true, false, true, true,
+    false)), (String ((Ascii (false, true, true, true, false, true, true,
+    false)), (String ((Ascii (true, true, false, false, true, false, true,
+    false)), (String ((Ascii (false, false, true, false, true, true, true,
+    false)), (String ((Ascii (false, true, false, false, true, true, true,
+    false)), (String ((Ascii (true, false, true, false, true, true, true,
+    false)), (String ((Ascii (true, true, false, false, false, true, true,
+    false)), (String ((Ascii (false, false, true, false, true, true, true,
+    false)), (String ((Ascii (false, true, true, false, true, false, true,
+    false)), (String ((Ascii (true, false, false, false, false, true, true,
+    false)), (String ((Ascii (false, false, true, true, false, true, true,
+    false)), (String ((Ascii (true, false, true, false, true, true, true,
+    false)), (String ((Ascii (true, false, true, false, false, true, true,
+    false)), EmptyString)))))))))))))))))))))))))))))))))))))))))) (JObj
+    (((String ((Ascii (true, false, true, false, false, true, true, false)),
+    (String ((Ascii (false, false, false, true, true, true, true, false)),
+    (String ((Ascii (false, false, false, false, true, true, true, false)),
+    (String ((Ascii (false, true, false, false, true, true, true, false)),
+    (String ((Ascii (true, false, true, false, false, true, true, false)),
+    (String ((Ascii (true, true, false, false, true, true, true, false)),
+    (String ((Ascii (true, true, false, false, true, true, true, false)),
+    (String ((Ascii (true, false, false, true, false, true, true, false)),
+    (String ((Ascii (true, true, true, true, false, true, true, false)),
+    (String ((Ascii (false, true, true, true, false, true, true, false)),
+    EmptyString)))))))))))))))))))), (enc_value v)) :: (((String ((Ascii
+    (true, false, false, true, false, true, true, false)), (String ((Ascii
+    (false, true, true, true, false, true, true, false)), (String ((Ascii
+    (false, false, true, false, false, true, true, false)), (String ((Ascii
+    (true, false, true, false, false, true, true, false)), (String ((Ascii
+    (false, false, false, true, true, true, true, false)),
+    EmptyString)))))))))), (enc_N idx)) :: (((String ((Ascii (false, true,
+    false, false, true, true, true, false)), (String ((Ascii (true, false,
+    true, false, false, true, true, false)), (String ((Ascii (true, true,
+    true, false, false, true, true, false)), (String ((Ascii (true, false,
+    false, true, false, true, true, false)), (String ((Ascii (true, true,
+    false, false, true, true, true, false)), (String ((Ascii (false, false,
+    true, false, true, true, true, false)), (String ((Ascii (true, false,
+    true, false, false, true, true, false)), (String ((Ascii (false, true,
+    false, false, true, true, true, false)), (String ((Ascii (true, true,
+    true, true, true, false, true, false)), (String ((Ascii (false, true,
+    true, true, false, true, true, false)), (String ((Ascii (true, false,
+    true, false, true, true, true, false)), (String ((Ascii (true, false,
+    true, true, false, true, true, false)), (String ((Ascii (false, true,
+    false, false, false, true, true, false)), (String ((Ascii (true, false,
+    true, false, false, true, true, false)), (String ((Ascii (false, true,
+    false, false, true, true, true, false)),
+    EmptyString)))))))))))))))))))))))))))))), (enc_N r)) :: []))))
+| IExprOp (op, l, r, reg) ->
+  tagc (String ((Ascii (true, false, true, false, false, false, true,
+    false)), (String ((Ascii (false, false, false, true, true, true, true,
+    false)), (String ((Ascii (false, false, false, false, true, true, true,
+    false)), (String ((Ascii (false, true, false, false, true, true, true,
+    false)), (String ((Ascii (true, false, true, false, false, true, true,
+    false)), (String ((Ascii (true, true, false, false, true, true, true,
+    false)), (String ((Ascii (true, true, false, false, true, true, true,
+    false)), (String ((Ascii (true, false, false, true, false, true, true,
+    false)), (String ((Ascii (true, true, true, true, false, true, true,
+    false)), (String ((Ascii (false, true, true, true, false, true, true,
+    false)), (String ((Ascii (true, true, true, true, false, false, true,
+    false)), (String ((Ascii (false, false, false, false, true, true, true,
+    false)), (String ((Ascii (true, false, true, false, false, true, true,
+    false)), (String ((Ascii (false, true, false, false, true, true, true,
+    false)), (String ((Ascii (true, false, false, false, false, true, true,
+    false)), (String ((Ascii (false, false, true, false, true, true, true,
+    false)), (String ((Ascii (true, false, false, true, false, true, true,
+    false)), (String ((Ascii (true, true, true, true, false, true, true,
+    false)), (String ((Ascii (false, true, true, true, false, true, true,
+    false)), EmptyString)))))))))))))))))))))))))))))))))))))) (JObj
+    (((String ((Ascii (true, true, true, true, false, true, true, false)),
+    (String ((Ascii (false, false, false, false, true, true, true, false)),
+    (String ((Ascii (true, false, true, false, false, true, true, false)),
+    (String ((Ascii (false, true, false, false, true, true, true, false)),
+    (String ((Ascii (true, false, false, false, false, true, true, false)),
+    (String ((Ascii (false, false, true, false, true, true, true, false)),
+    (String ((Ascii (true, false, false, true, false, true, true, false)),
+    (String ((Ascii (true, true, true, true, false, true, true, false)),
+    (String ((Ascii (false, true, true, true, false, true, true, false)),
+    EmptyString)))))))))))))))))), (enc_binop op)) :: (((String ((Ascii
+    (false, false, true, true, false, true, true, false)), (String ((Ascii
+    (true, false, true, false, false, true, true, false)), (String ((Ascii
+    (false, true, true, false, false, true, true, false)), (String ((Ascii
+    (false, false, true, false, true, true, true, false)), (String ((Ascii
+    (true, true, true, true, true, false, true, false)), (String ((Ascii
+    (false, true, true, false, true, true, true, false)), (String ((Ascii
+    (true, false, false, false, false, true, true, false)), (String ((Ascii
+    (false, false, true, true, false, true, true, false)), (String ((Ascii
+    (true, false, true, false, true, true, true, false)), (String ((Ascii
+    (true, false, true, false, false, true, true, false)),
+    EmptyString)))))))))))))))))))), (enc_eres l)) :: (((String ((Ascii
+    (false, true, false, false, true, true, true, false)), (String ((Ascii
+    (true, false, false, true, false, true, true, false)), (String ((Ascii
+    (true, true, true, false, false, true, true, false)), (String ((Ascii
+    (false, false, false, true, false, true, true, false)), (String ((Ascii
+    (false, false, true, false, true, true, true, false)), (String ((Ascii
+    (true, true, true, true, true, false, true, false)), (String ((Ascii
+    (false, true, true, false, true, true, true, false)), (String ((Ascii
+    (true, false, false, false, false, true, true, false)), (String ((Ascii
+    (false, false, true, true, false, true, true, false)), (String ((Ascii
+    (true, false, true, false, true, true, true, false)), (String ((Ascii
+    (true, false, true, false, false, true, true, false)),
+    EmptyString)))))))))))))))))))))), (enc_eres r)) :: (((String ((Ascii
+    (false, true, false, false, true, true, true, false)), (String ((Ascii
+    (true, false, true, false, false, true, true, false)), (String ((Ascii
+    (true, true, true, false, false, true, true, false)), (String ((Ascii
+    (true, false, false, true, false, true, true, false)), (String ((Ascii
+    (true, true, false, false, true, true, true, false)), (String ((Ascii
+    (false, false, true, false, true, true, true, false)), (String ((Ascii
+    (true, false, true, false, false, true, true, false)), (String ((Ascii
+    (false, true, false, false, true, true, true, false)), (String ((Ascii
+    (true, true, true, true, true, false, true, false)), (String ((Ascii
+    (false, true, true, true, false, true, true, false)), (String ((Ascii
+    (true, false, true, false, true, true, true, false)), (String ((Ascii
+    (true, false, true, true, false, true, true, false)), (String ((Ascii
+    (false, true, false, false, false, true, true, false)), (String ((Ascii
+    (true, false, true, false, false, true, true, false)), (String ((Ascii
+    (false, true, false, false, true, true, true, false)),
+    EmptyString)))))))))))))))))))))))))))))), (enc_N reg)) :: [])))))
+| ICall (f, args, r) ->
+  tagc (String ((Ascii (true, true, false, false, false, false, true,
+    false)), (String ((Ascii (true, false, false, false, false, true, true,
+    false)), (String ((Ascii (false, false, true, true, false, true, true,
+    false)), (String ((Ascii (false, false, true, true, false, true, true,
+    false)), EmptyString)))))))) (JObj (((String ((Ascii (true, true, false,
+    false, false, true, true, false)), (String ((Ascii (true, false, false,
+    false, false, true, true, false)), (String ((Ascii (false, false, true,
+    true, false, true, true, false)), (String ((Ascii (false, false, true,
+    true, false, true, true, false)), EmptyString)))))))),
+    (enc_func_sem f)) :: (((String ((Ascii (false, false, false, false, true,
+    true, true, false)), (String ((Ascii (true, false, false, false, false,
+    true, true, false)), (String ((Ascii (false, true, false, false, true,
+    true, true, false)), (String ((Ascii (true, false, false, false, false,
+    true, true, false)), (String ((Ascii (true, false, true, true, false,
+    true, true, false)), (String ((Ascii (true, true, false, false, true,
+    true, true, false)), EmptyString)))))))))))), (JArr
+    (map enc_eres args))) :: (((String ((Ascii (false, true, false, false,
+    true, true, true, false)), (String ((Ascii (true, false, true, false,
+    false, true, true, false)), (String ((Ascii (true, true, true, false,
+    false, true, true, false)), (String ((Ascii (true, false, false, true,
+    false, true, true, false)), (String ((Ascii (true, true, false, false,
+    true, true, true, false)), (String ((Ascii (false, false, true, false,
+    true, true, true, false)), (String ((Ascii (true, false, true, false,
+    false, true, true, false)), (String ((Ascii (false, true, false, false,
+    true, true, true, false)), (String ((Ascii (true, true, true, true, true,
+    false, true, false)), (String ((Ascii (false, true, true, true, false,
+    true, true, false)), (String ((Ascii (true, false, true, false, true,
+    true, true, false)), (String ((Ascii (true, false, true, true, false,
+    true, true, false)), (String ((Ascii (false, true, false, false, false,
+    true, true, false)), (String ((Ascii (true, false, true, false, false,
+    true, true, false)), (String ((Ascii (false, true, false, false, true,
+    true, true, false)), EmptyString)))))))))))))))))))))))))))))),
+    (enc_N r)) :: []))))
+| ILet (v, e) ->
+  tagc (String ((Ascii (false, false, true, true, false, false, true,
+    false)), (String ((Ascii (true, false, true, false, false, true, true,
+    false)), (String ((Ascii (false, false, true, false, true, true, true,
+    false)), (String ((Ascii (false, true, false, false, false, false, true,
+    false)), (String ((Ascii (true, false, false, true, false, true, true,
+    false)), (String ((Ascii (false, true, true, true, false, true, true,
+    false)), (String ((Ascii (false, false, true, false, false, true, true,
+    false)), (String ((Ascii (true, false, false, true, false, true, true,
+    false)), (String ((Ascii (false, true, true, true, false, true, true,
+    false)), (String ((Ascii (true, true, true, false, false, true, true,
+    false)), EmptyString)))))))))))))))))))) (JObj (((String ((Ascii (false,
+    false, true, true, false, true, true, false)), (String ((Ascii (true,
+    false, true, false, false, true, true, false)), (String ((Ascii (false,
+    false, true, false, true, true, true, false)), (String ((Ascii (true,
+    true, true, true, true, false, true, false)), (String ((Ascii (false,
+    false, true, false, false, true, true, false)), (String ((Ascii (true,
+    false, true, false, false, true, true, false)), (String ((Ascii (true,
+    true, false, false, false, true, true, false)), (String ((Ascii (false,
+    false, true, true, false, true, true, false)),
+    EmptyString)))))))))))))))), (enc_value v)) :: (((String ((Ascii (true,
+    false, true, false, false, true, true, false)), (String ((Ascii (false,
+    false, false, true, true, true, true, false)), (String ((Ascii (false,
+    false, false, false, true, true, true, false)), (String ((Ascii (false,
+    true, false, false, true, true, true, false)), (String ((Ascii (true,
+    true, true, true, true, false, true, false)), (String ((Ascii (false,
+    true, false, false, true, true, true, false)), (String ((Ascii (true,
+    false, true, false, false, true, true, false)), (String ((Ascii (true,
+    true, false, false, true, true, true, false)), (String ((Ascii (true,
+    false, true, false, true, true, true, false)), (String ((Ascii (false,
+    false, true, true, false, true, true, false)), (String ((Ascii (false,
+    false, true, false, true, true, true, false)),
+    EmptyString)))))))))))))))))))))), (enc_eres e)) :: [])))
+| IBind (v, e) ->
+  tagc (String ((Ascii (false, true, false, false, false, false, true,
+    false)), (String ((Ascii (true, false, false, true, false, true, true,
+    false)), (String ((Ascii (false, true, true, true, false, true, true,
+    false)), (String ((Ascii (false, false, true, false, false, true, true,
+    false)), (String ((Ascii (true, false, false, true, false, true, true,
+    false)), (String ((Ascii (false, true, true, true, false, true, true,
+    false)), (String ((Ascii (true, true, true, false, false, true, true,
+    false)), EmptyString)))))))))))))) (JObj (((String ((Ascii (false, true,
+    true, false, true, true, true, false)), (String ((Ascii (true, false,
+    false, false, false, true, true, false)), (String ((Ascii (false, false,
+    true, true, false, true, true, false)), EmptyString)))))),
+    (enc_value v)) :: (((String ((Ascii (true, false, true, false, false,
+    true, true, false)), (String ((Ascii (false, false, false, true, true,
+    true, true, false)), (String ((Ascii (false, false, false, false, true,
+    true, true, false)), (String ((Ascii (false, true, false, false, true,
+    true, true, false)), (String ((Ascii (true, true, true, true, true,
+    false, true, false)), (String ((Ascii (false, true, false, false, true,
+    true, true, false)), (String ((Ascii (true, false, true, false, false,
+    true, true, false)), (String ((Ascii (true, true, false, false, true,
+    true, true, false)), (String ((Ascii (true, false, true, false, true,
+    true, true, false)), (String ((Ascii (false, false, true, true, false,
+    true, true, false)), (String ((Ascii (false, false, true, false, true,
+    true, true, false)), EmptyString)))))))))))))))))))))),
+    (enc_eres e)) :: [])))
+| IFnRet e ->
+  tagc (String ((Ascii (true, false, true, false, false, false, true,
+    false)), (String ((Ascii (false, false, false, true, true, true, true,
+    false)), (String ((Ascii (false, false, false, false, true, true, true,
+    false)), (String ((Ascii (false, true, false, false, true, true, true,
+    false)), (String ((Ascii (true, false, true, false, false, true, true,
+    false)), (String ((Ascii (true, true, false, false, true, true, true,
+    false)), (String ((Ascii (true, true, false, false, true, true, true,
+    false)), (String ((Ascii (true, false, false, true, false, true, true,
+    false)), (String ((Ascii (true, true, true, true, false, true, true,
+    false)), (String ((Ascii (false, true, true, true, false, true, true,
+    false)), (String ((Ascii (false, true, true, false, false, false, true,
+    false)), (String ((Ascii (true, false, true, false, true, true, true,
+    false)), (String ((Ascii (false, true, true, true, false, true, true,
+    false)), (String ((Ascii (true, true, false, false, false, true, true,
+    false)), (String ((Ascii (false, false, true, false, true, true, true,
+    false)), (String ((Ascii (true, false, false, true, false, true, true,
+    false)), (String ((Ascii (true, true, true, true, false, true, true,
+    false)), (String ((Ascii (false, true, true, true, false, true, true,
+    false)), (String ((Ascii (false, true, false, false, true, false, true,
+    false)), (String ((Ascii (true, false, true, false, false, true, true,
+    false)), (String ((Ascii (false, false, true, false, true, true, true,
+    false)), (String ((Ascii (true, false, true, false, true, true, true,
+    false)), (String ((Ascii (false, true, false, false, true, true, true,
+    false)), (String ((Ascii (false, true, true, true, false, true, true,
+    false)), EmptyString))))))))))))))))))))))))))))))))))))))))))))))))
+    (JObj (((String ((Ascii (true, false, true, false, false, true, true,
+    false)), (String ((Ascii (false, false, false, true, true, true, true,
+    false)), (String ((Ascii (false, false, false, false, true, true, true,
+    false)), (String ((Ascii (false, true, false, false, true, true, true,
+    false)), (String ((Ascii (true, true, true, true, true, false, true,
+    false)), (String ((Ascii (false, true, false, false, true, true, true,
+    false)), (String ((Ascii (true, false, true, false, false, true, true,
+    false)), (String ((Ascii (true, true, false, false, true, true, true,
+    false)), (String ((Ascii (true, false, true, false, true, true, true,
+    false)), (String ((Ascii (false, false, true, true, false, true, true,
+    false)), (String ((Ascii (false, false, true, false, true, true, true,
+    false)), EmptyString)))))))))))))))))))))), (enc_eres e)) :: []))
+| IFnRetLabel e ->
+  tagc (String ((Ascii (true, false, true, false, false, false, true,
+    false)), (String ((Ascii (false, false, false, true, true, true, true,
+    false)), (String ((Ascii (false, false, false, false, true, true, true,
+    false)), (String ((Ascii (false, true, false, false, true, true, true,
+    false)), (String ((Ascii (true, false, true, false, false, true, true,
+    false)), (String ((Ascii (true, true, false, false, true, true, true,
+    false)), (String ((Ascii (true, true, false, false, true, true, true,
+    false)), (String ((Ascii (true, false, false, true, false, true, true,
+    false)), (String ((Ascii (true, true, true, true, false, true, true,
+    false)), (String ((Ascii (false, true, true, true, false, true, true,
+    false)), (String ((Ascii (false, true, true, false, false, false, true,
+    false)), (String ((Ascii (true, false, true, false, true, true, true,
+    false)), (String ((Ascii (false, true, true, true, false, true, true,
+    false)), (String ((Ascii (true, true, false, false, false, true, true,
+    false)), (String ((Ascii (false, false, true, false, true, true, true,
+    false)), (String ((Ascii (true, false, false, true, false, true, true,
+    false)), (String ((Ascii (true, true, true, true, false, true, true,
+    false)), (String ((Ascii (false, true, true, true, false, true, true,
+    false)), (String ((Ascii (false, true, false, false, true, false, true,
+    false)), (String ((Ascii (true, false, true, false, false, true, true,
+    false)), (String ((Ascii (false, false, true, false, true, true, true,
+    false)), (String ((Ascii (true, false, true, false, true, true, true,
+    false)), (String ((Ascii (false, true, false, false, true, true, true,
+    false)), (String ((Ascii (false, true, true, true, false, true, true,
+    false)), (String ((Ascii (true, true, true, false, true, false, true,
+    false)), (String ((Ascii (true, false, false, true, false, true, true,
+    false)), (String ((Ascii (false, false, true, false, true, true, true,
+    false)), (String ((Ascii (false, false, false, true, false, true, true,
+    false)), (String ((Ascii (false, false, true, true, false, false, true,
+    false)), (String ((Ascii (true, false, false, false, false, true, true,
+    false)), (String ((Ascii (false, true, false, false, false, true, true,
+    false)), (String ((Ascii (true, false, true, false, false, true, true,
+    false)), (String ((Ascii (false, false, true, true, false, true, true,
+    false)),
+    EmptyString))))))))))))))))))))))))))))))))))))))))))))))))))))))))))))))))))
+    (JObj (((String ((Ascii (true, false, true, false, false, true, true,
+    false)), (String ((Ascii (false, false, false, true, true, true, true,
+    false)), (String ((Ascii (false, false, false, false, true, true, true,
+    false)), (String ((Ascii (false, true, false, false, true, true, true,
+    false)), (String ((Ascii (true, true, true, true, true, false, true,
+    false)), (String ((Ascii (false, true, false, false, true, true, true,
+    false)), (String ((Ascii (true, false, true, false, false, true, true,
+    false)), (String ((Ascii (true, true, false, false, true, true, true,
+    false)), (String ((Ascii (true, false, true, false, true, true, true,
+    false)), (String ((Ascii (false, false, true, true, false, true, true,
+    false)), (String ((Ascii (false, false, true, false, true, true, true,
+    false)), EmptyString)))))))))))))))))))))), (enc_eres e)) :: []))
+| ISetLabel l ->
+  tagc (String ((Ascii (true, true, false, false, true, false, true, false)),
+    (String ((Ascii (true, false, true, false, false, true, true, false)),
+    (String ((Ascii (false, false, true, false, true, true, true, false)),
+    (String ((Ascii (false, false, true, true, false, false, true, false)),
+    (String ((Ascii (true, false, false, false, false, true, true, false)),
+    (String ((Ascii (false, true, false, false, false, true, true, false)),
+    (String ((Ascii (true, false, true, false, false, true, true, false)),
+    (String ((Ascii (false, false, true, true, false, true, true, false)),
+    EmptyString)))))))))))))))) (JObj (((String ((Ascii (false, false, true,
+    true, false, true, true, false)), (String ((Ascii (true, false, false,
+    false, false, true, true, false)), (String ((Ascii (false, true, false,
+    false, false, true, true, false)), (String ((Ascii (true, false, true,
+    false, false, true, true, false)), (String ((Ascii (false, false, true,
+    true, false, true, true, false)), EmptyString)))))))))), (JStr l)) :: []))
+| IJumpTo l ->
+  tagc (String ((Ascii (false, true, false, true, false, false, true,
+    false)), (String ((Ascii (true, false, true, false, true, true, true,
+    false)), (String ((Ascii (true, false, true, true, false, true, true,
+    false)), (String ((Ascii (false, false, false, false, true, true, true,
+    false)), (String ((Ascii (false, false, true, false, true, false, true,
+    false)), (String ((Ascii (true, true, true, true, false, true, true,
+    false)), EmptyString)))))))))))) (JObj (((String ((Ascii (false, false,
+    true, true, false, true, true, false)), (String ((Ascii (true, false,
+    false, false, false, true, true, false)), (String ((Ascii (false, true,
+    false, false, false, true, true, false)), (String ((Ascii (true, false,
+    true, false, false, true, true, false)), (String ((Ascii (false, false,
+    true, true, false, true, true, false)), EmptyString)))))))))), (JStr
+    l)) :: []))
+| IIfCondExpr (e, lb, le) ->
+  tagc (String ((Ascii (true, false, false, true, false, false, true,
+    false)), (String ((Ascii (false, true, true, false, false, true, true,
+    false)), (String ((Ascii (true, true, false, false, false, false, true,
+    false)), (String ((Ascii (true, true, true, true, false, true, true,
+    false)), (String ((Ascii (false, true, true, true, false, true, true,
+    false)), (String ((Ascii (false, false, true, false, false, true, true,
+    false)), (String ((Ascii (true, false, false, true, false, true, true,
+    false)), (String ((Ascii (false, false, true, false, true, true, true,
+    false)), (String ((Ascii (true, false, false, true, false, true, true,
+    false)), (String ((Ascii (true, true, true, true, false, true, true,
+    false)), (String ((Ascii (false, true, true, true, false, true, true,
+    false)), (String ((Ascii (true, false, true, false, false, false, true,
+    false)), (String ((Ascii (false, false, false, true, true, true, true,
+    false)), (String ((Ascii (false, false, false, false, true, true, true,
+    false)), (String ((Ascii (false, true, false, false, true, true, true,
+    false)), (String ((Ascii (true, false, true, false, false, true, true,
+    false)), (String ((Ascii (true, true, false, false, true, true, true,
+    false)), (String ((Ascii (true, true, false, false, true, true, true,
+    false)), (String ((Ascii (true, false, false, true, false, true, true,
+    false)), (String ((Ascii (true, true, true, true, false, true, true,
+    false)), (String ((Ascii (false, true, true, true, false, true, true,
+    false)), EmptyString)))))))))))))))))))))))))))))))))))))))))) (JObj
+    (((String ((Ascii (true, false, true, false, false, true, true, false)),
+    (String ((Ascii (false, false, false, true, true, true, true, false)),
+    (String ((Ascii (false, false, false, false, true, true, true, false)),
+    (String ((Ascii (false, true, false, false, true, true, true, false)),
+    (String ((Ascii (true, true, true, true, true, false, true, false)),
+    (String ((Ascii (false, true, false, false, true, true, true, false)),
+    (String ((Ascii (true, false, true, false, false, true, true, false)),
+    (String ((Ascii (true, true, false, false, true, true, true, false)),
+    (String ((Ascii (true, false, true, false, true, true, true, false)),
+    (String ((Ascii (false, false, true, true, false, true, true, false)),
+    (String ((Ascii (false, false, true, false, true, true, true, false)),
+    EmptyString)))))))))))))))))))))), (enc_eres e)) :: (((String ((Ascii
+    (false, false, true, true, false, true, true, false)), (String ((Ascii
+    (true, false, false, false, false, true, true, false)), (String ((Ascii
+    (false, true, false, false, false, true, true, false)), (String ((Ascii
+    (true, false, true, false, false, true, true, false)), (String ((Ascii
+    (false, false, true, true, false, true, true, false)), (String ((Ascii
+    (true, true, true, true, true, false, true, false)), (String ((Ascii
+    (true, false, false, true, false, true, true, false)), (String ((Ascii
+    (false, true, true, false, false, true, true, false)), (String ((Ascii
+    (true, true, true, true, true, false, true, false)), (String ((Ascii
+    (false, true, false, false, false, true, true, false)), (String ((Ascii
+    (true, false, true, false, false, true, true, false)), (String ((Ascii
+    (true, true, true, false, false, true, true, false)), (String ((Ascii
+    (true, false, false, true, false, true, true, false)), (String ((Ascii
+    (false, true, true, true, false, true, true, false)),
+    EmptyString)))))))))))))))))))))))))))), (JStr lb)) :: (((String ((Ascii
+    (false, false, true, true, false, true, true, false)), (String ((Ascii
+    (true, false, false, false, false, true, true, false)), (String ((Ascii
+    (false, true, false, false, false, true, true, false)), (String ((Ascii
+    (true, false, true, false, false, true, true, false)), (String ((Ascii
+    (false, false, true, true, false, true, true, false)), (String ((Ascii
+    (true, true, true, true, true, false, true, false)), (String ((Ascii
+    (true, false, false, true, false, true, true, false)), (String ((Ascii
+    (false, true, true, false, false, true, true, false)), (String ((Ascii
+    (true, true, true, true, true, false, true, false)), (String ((Ascii
+    (true, false, true, false, false, true, true, false)), (String ((Ascii
+    (false, true, true, true, false, true, true, false)), (String ((Ascii
+    (false, false, true, false, false, true, true, false)),
+    EmptyString)))))))))))))))))))))))), (JStr le)) :: []))))
+| ICondExpr (l, r, c, reg) ->
+  tagc (String ((Ascii (true, true, false, false, false, false, true,
+    false)), (String ((Ascii (true, true, true, true, false, true, true,
+    false)), (String ((Ascii (false, true, true, true, false, true, true,
+    false)), (String ((Ascii (false, false, true, false, false, true, true,
+    false)), (String ((Ascii (true, false, false, true, false, true, true,
+    false)), (String ((Ascii (false, false, true, false, true, true, true,
+    false)), (String ((Ascii (true, false, false, true, false, true, true,
+    false)), (String ((Ascii (true, true, true, true, false, true, true,
+    false)), (String ((Ascii (false, true, true, true, false, true, true,
+    false)), (String ((Ascii (true, false, true, false, false, false, true,
+    false)), (String ((Ascii (false, false, false, true, true, true, true,
+    false)), (String ((Ascii (false, false, false, false, true, true, true,
+    false)), (String ((Ascii (false, true, false, false, true, true, true,
+    false)), (String ((Ascii (true, false, true, false, false, true, true,
+    false)), (String ((Ascii (true, true, false, false, true, true, true,
+    false)), (String ((Ascii (true, true, false, false, true, true, true,
+    false)), (String ((Ascii (true, false, false, true, false, true, true,
+    false)), (String ((Ascii (true, true, true, true, false, true, true,
+    false)), (String ((Ascii (false, true, true, true, false, true, true,
+    false)), EmptyString)))))))))))))))))))))))))))))))))))))) (JObj
+    (((String ((Ascii (false, false, true, true, false, true, true, false)),
+    (String ((Ascii (true, false, true, false, false, true, true, false)),
+    (String ((Ascii (false, true, true, false, false, true, true, false)),
+    (String ((Ascii (false, false, true, false, true, true, true, false)),
+    (String ((Ascii (true, true, true, true, true, false, true, false)),
+    (String ((Ascii (false, true, false, false, true, true, true, false)),
+    (String ((Ascii (true, false, true, false, false, true, true, false)),
+    (String ((Ascii (true, true, false, false, true, true, true, false)),
+    (String ((Ascii (true, false, true, false, true, true, true, false)),
+    (String ((Ascii (false, false, true, true, false, true, true, false)),
+    (String ((Ascii (false, false, true, false, true, true, true, false)),
+    EmptyString)))))))))))))))))))))), (enc_eres l)) :: (((String ((Ascii
+    (false, true, false, false, true, true, true, false)), (String ((Ascii
+    (true, false, false, true, false, true, true, false)), (String ((Ascii
+    (true, true, true, false, false, true, true, false)), (String ((Ascii
+    (false, false, false, true, false, true, true, false)), (String ((Ascii
+    (false, false, true, false, true, true, true, false)), (String ((Ascii
+    (true, true, true, true, true, false, true, false)), (String ((Ascii
+    (false, true, false, false, true, true, true, false)), (String ((Ascii
+    (true, false, true, false, false, true, true, false)), (String ((Ascii
+    (true, true, false, false, true, true, true, false)), (String ((Ascii
+    (true, false, true, false, true, true, true, false)), (String ((Ascii
+    (false, false, true, true, false, true, true, false)), (String ((Ascii
+    (false, false, true, false, true, true, true, false)),
+    EmptyString)))))))))))))))))))))))), (enc_eres r)) :: (((String ((Ascii
+    (true, true, false, false, false, true, true, false)), (String ((Ascii
+    (true, true, true, true, false, true, true, false)), (String ((Ascii
+    (false, true, true, true, false, true, true, false)), (String ((Ascii
+    (false, false, true, false, false, true, true, false)), (String ((Ascii
+    (true, false, false, true, false, true, true, false)), (String ((Ascii
+    (false, false, true, false, true, true, true, false)), (String ((Ascii
+    (true, false, false, true, false, true, true, false)), (String ((Ascii
+    (true, true, true, true, false, true, true, false)), (String ((Ascii
+    (false, true, true, true, false, true, true, false)),
+    EmptyString)))))))))))))))))), (enc_cmpop c)) :: (((String ((Ascii
+    (false, true, false, false, true, true, true, false)), (String ((Ascii
+    (true, false, true, false, false, true, true, false)), (String ((Ascii
+    (true, true, true, false, false, true, true, false)), (String ((Ascii
+    (true, false, false, true, false, true, true, false)), (String ((Ascii
+    (true, true, false, false, true, true, true, false)), (String ((Ascii
+    (false, false, true, false, true, true, true, false)), (String ((Ascii
+    (true, false, true, false, false, true, true, false)), (String ((Ascii
+    (false, true, false, false, true, true, true, false)), (String ((Ascii
+    (true, true, true, true, true, false, true, false)), (String ((Ascii
+    (false, true, true, true, false, true, true, false)), (String ((Ascii
+    (true, false, true, false, true, true, true, false)), (String ((Ascii
+    (true, false, true, true, false, true, true, false)), (String ((Ascii
+    (false, true, false, false, false, true, true, false)), (String ((Ascii
+    (true, false, true, false, false, true, true, false)), (String ((Ascii
+    (false, true, false, false, true, true, true, false)),
+    EmptyString)))))))))))))))))))))))))))))), (enc_N reg)) :: [])))))
+| IJumpFnRet e ->
+  tagc (String ((Ascii (false, true, false, true, false, false, true,
+    false)), (String ((Ascii (true, false, true, false, true, true, true,
+    false)), (String ((Ascii (true, false, true, true, false, true, true,
+    false)), (String ((Ascii (false, false, false, false, true, true, true,
+    false)), (String ((Ascii (false, true, true, false, false, false, true,
+    false)), (String ((Ascii (true, false, true, false, true, true, true,
+    false)), (String ((Ascii (false, true, true, true, false, true, true,
+    false)), (String ((Ascii (true, true, false, false, false, true, true,
+    false)), (String ((Ascii (false, false, true, false, true, true, true,
+    false)), (String ((Ascii (true, false, false, true, false, true, true,
+    false)), (String ((Ascii (true, true, true, true, false, true, true,
+    false)), (String ((Ascii (false, true, true, true, false, true, true,
+    false)), (String ((Ascii (false, true, false, false, true, false, true,
+    false)), (String ((Ascii (true, false, true, false, false, true, true,
+    false)), (String ((Ascii (false, false, true, false, true, true, true,
+    false)), (String ((Ascii (true, false, true, false, true, true, true,
+    false)), (String ((Ascii (false, true, false, false, true, true, true,
+    false)), (String ((Ascii (false, true, true, true, false, true, true,
+    false)), EmptyString)))))))))))))))))))))))))))))))))))) (JObj (((String
+    ((Ascii (true, false, true, false, false, true, true, false)), (String
+    ((Ascii (false, false, false, true, true, true, true, false)), (String
+    ((Ascii (false, false, false, false, true, true, true, false)), (String
+    ((Ascii (false, true, false, false, true, true, true, false)), (String
+    ((Ascii (true, true, true, true, true, false, true, false)), (String
+    ((Ascii (false, true, false, false, true, true, true, false)), (String
+    ((Ascii (true, false, true, false, false, true, true, false)), (String
+    ((Ascii (true, true, false, false, true, true, true, false)), (String
+    ((Ascii (true, false, true, false, true, true, true, false)), (String
+    ((Ascii (false, false, true, true, false, true, true, false)), (String
+    ((Ascii (false, false, true, false, true, true, true, false)),
+    EmptyString)))))))))))))))))))))), (enc_eres e)) :: []))
+| ILogic (op, l, r, reg) ->
+  tagc (String ((Ascii (false, false, true, true, false, false, true,
+    false)), (String ((Ascii (true, true, true, true, false, true, true,
+    false)), (String ((Ascii (true, true, true, false, false, true, true,
+    false)), (String ((Ascii (true, false, false, true, false, true, true,
+    false)), (String ((Ascii (true, true, false, false, false, true, true,
+    false)), (String ((Ascii (true, true, false, false, false, false, true,
+    false)), (String ((Ascii (true, true, true, true, false, true, true,
+    false)), (String ((Ascii (false, true, true, true, false, true, true,
+    false)), (String ((Ascii (false, false, true, false, false, true, true,
+    false)), (String ((Ascii (true, false, false, true, false, true, true,
+    false)), (String ((Ascii (false, false, true, false, true, true, true,
+    false)), (String ((Ascii (true, false, false, true, false, true, true,
+    false)), (String ((Ascii (true, true, true, true, false, true, true,
+    false)), (String ((Ascii (false, true, true, true, false, true, true,
+    false)), EmptyString)))))))))))))))))))))))))))) (JObj (((String ((Ascii
+    (false, false, true, true, false, true, true, false)), (String ((Ascii
+    (true, true, true, true, false, true, true, false)), (String ((Ascii
+    (true, true, true, false, false, true, true, false)), (String ((Ascii
+    (true, false, false, true, false, true, true, false)), (String ((Ascii
+    (true, true, false, false, false, true, true, false)), (String ((Ascii
+    (true, true, true, true, true, false, true, false)), (String ((Ascii
+    (true, true, false, false, false, true, true, false)), (String ((Ascii
+    (true, true, true, true, false, true, true, false)), (String ((Ascii
+    (false, true, true, true, false, true, true, false)), (String ((Ascii
+    (false, false, true, false, false, true, true, false)), (String ((Ascii
+    (true, false, false, true, false, true, true, false)), (String ((Ascii
+    (false, false, true, false, true, true, true, false)), (String ((Ascii
+    (true, false, false, true, false, true, true, false)), (String ((Ascii
+    (true, true, true, true, false, true, true, false)), (String ((Ascii
+    (false, true, true, true, false, true, true, false)),
+    EmptyString)))))))))))))))))))))))))))))), (enc_logicop op)) :: (((String
+    ((Ascii (false, false, true, true, false, true, true, false)), (String
+    ((Ascii (true, false, true, false, false, true, true, false)), (String
+    ((Ascii (false, true, true, false, false, true, true, false)), (String
+    ((Ascii (false, false, true, false, true, true, true, false)), (String
+    ((Ascii (true, true, true, true, true, false, true, false)), (String
+    ((Ascii (false, true, false, false, true, true, true, false)), (String
+    ((Ascii (true, false, true, false, false, true, true, false)), (String
+    ((Ascii (true, true, true, false, false, true, true, false)), (String
+    ((Ascii (true, false, false, true, false, true, true, false)), (String
+    ((Ascii (true, true, false, false, true, true, true, false)), (String
+    ((Ascii (false, false, true, false, true, true, true, false)), (String
+    ((Ascii (true, false, true, false, false, true, true, false)), (String
+    ((Ascii (false, true, false, false, true, true, true, false)), (String
+    ((Ascii (true, true, true, true, true, false, true, false)), (String
+    ((Ascii (false, true, false, false, true, true, true, false)), (String
+    ((Ascii (true, false, true, false, false, true, true, false)), (String
+    ((Ascii (true, true, false, false, true, true, true, false)), (String
+    ((Ascii (true, false, true, false, true, true, true, false)), (String
+    ((Ascii (false, false, true, true, false, true, true, false)), (String
+    ((Ascii (false, false, true, false, true, true, true, false)),
+    EmptyString)))))))))))))))))))))))))))))))))))))))),
+    (enc_N l)) :: (((String ((Ascii (false, true, false, false, true, true,
+    true, false)), (String ((Ascii (true, false, false, true, false, true,
+    true, false)), (String ((Ascii (true, true, true, false, false, true,
+    true, false)), (String ((Ascii (false, false, false, true, false, true,
+    true, false)), (String ((Ascii (false, false, true, false, true, true,
+    true, false)), (String ((Ascii (true, true, true, true, true, false,
+    true, false)), (String ((Ascii (false, true, false, false, true, true,
+    true, false)), (String ((Ascii (true, false, true, false, false, true,
+    true, false)), (String ((Ascii (true, true, true, false, false, true,
+    true, false)), (String ((Ascii (true, false, false, true, false, true,
+    true, false)), (String ((Ascii (true, true, false, false, true, true,
+    true, false)), (String ((Ascii (false, false, true, false, true, true,
+    true, false)), (String ((Ascii (true, false, true, false, false, true,
+    true, false)), (String ((Ascii (false, true, false, false, true, true,
+    true, false)), (String ((Ascii (true, true, true, true, true, false,
+    true, false)), (String ((Ascii (false, true, false, false, true, true,
+    true, false)), (String ((Ascii (true, false, true, false, false, true,
+    true, false)), (String ((Ascii (true, true, false, false, true, true,
+    true, false)), (String ((Ascii (true, false, true, false, true, true,
+    true, false)), (String ((Ascii (false, false, true, true, false, true,
+    true, false)), (String ((Ascii (false, false, true, false, true, true,
+    true, false)), EmptyString)))))))))))))))))))))))))))))))))))))))))),
+    (enc_N r)) :: (((String ((Ascii (false, true, false, false, true, true,
+    true, false)), (String ((Ascii (true, false, true, false, false, true,
+    true, false)), (String ((Ascii (true, true, true, false, false, true,
+    true, false)), (String ((Ascii (true, false, false, true, false, true,
+    true, false)), (String ((Ascii (true, true, false, false, true, true,
+    true, false)), (String ((Ascii (false, false, true, false, true, true,
+    true, false)), (String ((Ascii (true, false, true, false, false, true,
+    true, false)), (String ((Ascii (false, true, false, false, true, true,
+    true, false)), (String ((Ascii (true, true, true, true, true, false,
+    true, false)), (String ((Ascii (false, true, true, true, false, true,
+    true, false)), (String ((Ascii (true, false, true, false, true, true,
+    true, false)), (String ((Ascii (true, false, true, true, false, true,
+    true, false)), (String ((Ascii (false, true, false, false, false, true,
+    true, false)), (String ((Ascii (true, false, true, false, false, true,
+    true, false)), (String ((Ascii (false, true, false, false, true, true,
+    true, false)), EmptyString)))))))))))))))))))))))))))))),
+    (enc_N reg)) :: [])))))
+| IIfCondLogic (lb, le, r) ->
+  tagc (String ((Ascii (true, false, false, true, false, false, true,
+    false)), (String ((Ascii (false, true, true, false, false, true, true,
+    false)), (String ((Ascii (true, true, false, false, false, false, true,
+    false)), (String ((Ascii (true, true, true, true, false, true, true,
+    false)), (String ((Ascii (false, true, true, true, false, true, true,
+    false)), (String ((Ascii (false, false, true, false, false, true, true,
+    false)), (String ((Ascii (true, false, false, true, false, true, true,
+    false)), (String ((Ascii (false, false, true, false, true, true, true,
+    false)), (String ((Ascii (true, false, false, true, false, true, true,
+    false)), (String ((Ascii (true, true, true, true, false, true, true,
+    false)), (String ((Ascii (false, true, true, true, false, true, true,
+    false)), (String ((Ascii (false, false, true, true, false, false, true,
+    false)), (String ((Ascii (true, true, true, true, false, true, true,
+    false)), (String ((Ascii (true, true, true, false, false, true, true,
+    false)), (String ((Ascii (true, false, false, true, false, true, true,
+    false)), (String ((Ascii (true, true, false, false, false, true, true,
+    false)), EmptyString)))))))))))))))))))))))))))))))) (JObj (((String
+    ((Ascii (false, false, true, true, false, true, true, false)), (String
+    ((Ascii (true, false, false, false, false, true, true, false)), (String
+    ((Ascii (false, true, false, false, false, true, true, false)), (String
+    ((Ascii (true, false, true, false, false, true, true, false)), (String
+    ((Ascii (false, false, true, true, false, true, true, false)), (String
+    ((Ascii (true, true, true, true, true, false, true, false)), (String
+    ((Ascii (true, false, false, true, false, true, true, false)), (String
+    ((Ascii (false, true, true, false, false, true, true, false)), (String
+    ((Ascii (true, true, true, true, true, false, true, false)), (String
+    ((Ascii (false, true, false, false, false, true, true, false)), (String
+    ((Ascii (true, false, true, false, false, true, true, false)), (String
+    ((Ascii (true, true, true, false, false, true, true, false)), (String
+    ((Ascii (true, false, false, true, false, true, true, false)), (String
+    ((Ascii (false, true, true, true, false, true, true, false)),
+    EmptyString)))))))))))))))))))))))))))), (JStr lb)) :: (((String ((Ascii
+    (false, false, true, true, false, true, true, false)), (String ((Ascii
+    (true, false, false, false, false, true, true, false)), (String ((Ascii
+    (false, true, false, false, false, true, true, false)), (String ((Ascii
+    (true, false, true, false, false, true, true, false)), (String ((Ascii
+    (false, false, true, true, false, true, true, false)), (String ((Ascii
+    (true, true, true, true, true, false, true, false)), (String ((Ascii
+    (true, false, false, true, false, true, true, false)), (String ((Ascii
+    (false, true, true, false, false, true, true, false)), (String ((Ascii
+    (true, true, true, true, true, false, true, false)), (String ((Ascii
+    (true, false, true, false, false, true, true, false)), (String ((Ascii
+    (false, true, true, true, false, true, true, false)), (String ((Ascii
+    (false, false, true, false, false, true, true, false)),
+    EmptyString)))))))))))))))))))))))), (JStr le)) :: (((String ((Ascii
+    (false, true, false, false, true, true, true, false)), (String ((Ascii
+    (true, false, true, false, false, true, true, false)), (String ((Ascii
+    (true, true, false, false, true, true, true, false)), (String ((Ascii
+    (true, false, true, false, true, true, true, false)), (String ((Ascii
+    (false, false, true, true, false, true, true, false)), (String ((Ascii
+    (false, false, true, false, true, true, true, false)), (String ((Ascii
+    (true, true, true, true, true, false, true, false)), (String ((Ascii
+    (false, true, false, false, true, true, true, false)), (String ((Ascii
+    (true, false, true, false, false, true, true, false)), (String ((Ascii
+    (true, true, true, false, false, true, true, false)), (String ((Ascii
+    (true, false, false, true, false, true, true, false)), (String ((Ascii
+    (true, true, false, false, true, true, true, false)), (String ((Ascii
+    (false, false, true, false, true, true, true, false)), (String ((Ascii
+    (true, false, true, false, false, true, true, false)), (String ((Ascii
+    (false, true, false, false, true, true, true, false)),
+    EmptyString)))))))))))))))))))))))))))))), (enc_N r)) :: []))))
+| IFnArg (v, pn, pt) ->
+  tagc (String ((Ascii (false, true, true, false, false, false, true,
+    false)), (String ((Ascii (true, false, true, false, true, true, true,
+    false)), (String ((Ascii (false, true, true, true, false, true, true,
+    false)), (String ((Ascii (true, true, false, false, false, true, true,
+    false)), (String ((Ascii (false, false, true, false, true, true, true,
+    false)), (String ((Ascii (true, false, false, true, false, true, true,
+    false)), (String ((Ascii (true, true, true, true, false, true, true,
+    false)), (String ((Ascii (false, true, true, true, false, true, true,
+    false)), (String ((Ascii (true, false, false, false, false, false, true,
+    false)), (String ((Ascii (false, true, false, false, true, true, true,
+    false)), (String ((Ascii (true, true, true, false, false, true, true,
+    false)), EmptyString)))))))))))))))))))))) (JObj (((String ((Ascii
+    (false, true, true, false, true, true, true, false)), (String ((Ascii
+    (true, false, false, false, false, true, true, false)), (String ((Ascii
+    (false, false, true, true, false, true, true, false)), (String ((Ascii
+    (true, false, true, false, true, true, true, false)), (String ((Ascii
+    (true, false, true, false, false, true, true, false)),
+    EmptyString)))))))))), (enc_value v)) :: (((String ((Ascii (false, true,
+    true, false, false, true, true, false)), (String ((Ascii (true, false,
+    true, false, true, true, true, false)), (String ((Ascii (false, true,
+    true, true, false, true, true, false)), (String ((Ascii (true, true,
+    false, false, false, true, true, false)), (String ((Ascii (true, true,
+    true, true, true, false, true, false)), (String ((Ascii (true, false,
+    false, false, false, true, true, false)), (String ((Ascii (false, true,
+    false, false, true, true, true, false)), (String ((Ascii (true, true,
+    true, false, false, true, true, false)), EmptyString)))))))))))))))),
+    (JObj (((String ((Ascii (false, true, true, true, false, true, true,
+    false)), (String ((Ascii (true, false, false, false, false, true, true,
+    false)), (String ((Ascii (true, false, true, true, false, true, true,
+    false)), (String ((Ascii (true, false, true, false, false, true, true,
+    false)), EmptyString)))))))), (JStr pn)) :: (((String ((Ascii (false,
+    false, false, false, true, true, true, false)), (String ((Ascii (true,
+    false, false, false, false, true, true, false)), (String ((Ascii (false,
+    true, false, false, true, true, true, false)), (String ((Ascii (true,
+    false, false, false, false, true, true, false)), (String ((Ascii (true,
+    false, true, true, false, true, true, false)), (String ((Ascii (true,
+    false, true, false, false, true, true, false)), (String ((Ascii (false,
+    false, true, false, true, true, true, false)), (String ((Ascii (true,
+    false, true, false, false, true, true, false)), (String ((Ascii (false,
+    true, false, false, true, true, true, false)), (String ((Ascii (true,
+    true, true, true, true, false, true, false)), (String ((Ascii (false,
+    false, true, false, true, true, true, false)), (String ((Ascii (true,
+    false, false, true, true, true, true, false)), (String ((Ascii (false,
+    false, false, false, true, true, true, false)), (String ((Ascii (true,
+    false, true, false, false, true, true, false)),
+    EmptyString)))))))))))))))))))))))))))),
+    (enc_sem_ty pt)) :: [])))) :: [])))
+| IExt (tag, r) ->
+  tagc (String ((Ascii (true, false, true, false, false, false, true,
+    false)), (String ((Ascii (false, false, false, true, true, true, true,
+    false)), (String ((Ascii (false, false, true, false, true, true, true,
+    false)), (String ((Ascii (true, false, true, false, false, true, true,
+    false)), (String ((Ascii (false, true, true, true, false, true, true,
+    false)), (String ((Ascii (false, false, true, false, false, true, true,
+    false)), (String ((Ascii (true, false, true, false, false, true, true,
+    false)), (String ((Ascii (false, false, true, false, false, true, true,
+    false)), (String ((Ascii (true, false, true, false, false, false, true,
+    false)), (String ((Ascii (false, false, false, true, true, true, true,
+    false)), (String ((Ascii (false, false, false, false, true, true, true,
+    false)), (String ((Ascii (false, true, false, false, true, true, true,
+    false)), (String ((Ascii (true, false, true, false, false, true, true,
+    false)), (String ((Ascii (true, true, false, false, true, true, true,
+    false)), (String ((Ascii (true, true, false, false, true, true, true,
+    false)), (String ((Ascii (true, false, false, true, false, true, true,
+    false)), (String ((Ascii (true, true, true, true, false, true, true,
+    false)), (String ((Ascii (false, true, true, true, false, true, true,
+    false)), EmptyString)))))))))))))))))))))))))))))))))))) (JObj (((String
+    ((Ascii (false, false, true, false, true, true, true, false)), (String
+    ((Ascii (true, false, false, false, false, true, true, false)), (String
+    ((Ascii (true, true, true, false, false, true, true, false)),
+    EmptyString)))))), (enc_N tag)) :: (((String ((Ascii (false, true, false,
+    false, true, true, true, false)), (String ((Ascii (true, false, true,
+    false, false, true, true, false)), (String ((Ascii (true, true, true,
+    false, false, true, true, false)), EmptyString)))))), (enc_N r)) :: [])))
+
+(** val enc_stack : instr list -> json **)
+
+let enc_stack c =
+  JArr (map enc_instr c)
+
+(** val enc_loc : loc -> json **)
+
+let enc_loc l =
+  JArr ((enc_N (fst l)) :: ((enc_N (snd l)) :: []))
+
+(** val enc_err : err -> json **)
+
+let enc_err e =
+  JObj (((String ((Ascii (true, true, false, true, false, true, true,
+    false)), (String ((Ascii (true, false, false, true, false, true, true,
+    false)), (String ((Ascii (false, true, true, true, false, true, true,
+    false)), (String ((Ascii (false, false, true, false, false, true, true,
+    false)), EmptyString)))))))), (enc_err_kind e.e_kind)) :: (((String
+    ((Ascii (false, true, true, false, true, true, true, false)), (String
+    ((Ascii (true, false, false, false, false, true, true, false)), (String
+    ((Ascii (false, false, true, true, false, true, true, false)), (String
+    ((Ascii (true, false, true, false, true, true, true, false)), (String
+    ((Ascii (true, false, true, false, false, true, true, false)),
+    EmptyString)))))))))), (enc_opt enc_str e.e_val)) :: (((String ((Ascii
+    (false, false, true, true, false, true, true, false)), (String ((Ascii
+    (true, true, true, true, false, true, true, false)), (String ((Ascii
+    (true, true, false, false, false, true, true, false)), (String ((Ascii
+    (true, false, false, false, false, true, true, false)), (String ((Ascii
+    (false, false, true, false, true, true, true, false)), (String ((Ascii
+    (true, false, false, true, false, true, true, false)), (String ((Ascii
+    (true, true, true, true, false, true, true, false)), (String ((Ascii
+    (false, true, true, true, false, true, true, false)),
+    EmptyString)))))))))))))))), (enc_loc e.e_loc)) :: [])))
+
+(** val enc_errors : err list -> json **)
+
+let enc_errors es =
+  JArr (map enc_err es)
+
+(** val enc_sparam : (string * sem_ty) -> json **)
+
+let enc_sparam p =
+  JObj (((String ((Ascii (false, true, true, true, false, true, true,
+    false)), (String ((Ascii (true, false, false, false, false, true, true,
+    false)), (String ((Ascii (true, false, true, true, false, true, true,
+    false)), (String ((Ascii (true, false, true, false, false, true, true,
+    false)), EmptyString)))))))), (JStr (fst p))) :: (((String ((Ascii
+    (false, false, false, false, true, true, true, false)), (String ((Ascii
+    (true, false, false, false, false, true, true, false)), (String ((Ascii
+    (false, true, false, false, true, true, true, false)), (String ((Ascii
+    (true, false, false, false, false, true, true, false)), (String ((Ascii
+    (true, false, true, true, false, true, true, false)), (String ((Ascii
+    (true, false, true, false, false, true, true, false)), (String ((Ascii
+    (false, false, true, false, true, true, true, false)), (String ((Ascii
+    (true, false, true, false, false, true, true, false)), (String ((Ascii
+    (false, true, false, false, true, true, true, false)), (String ((Ascii
+    (true, true, true, true, true, false, true, false)), (String ((Ascii
+    (false, false, true, false, true, true, true, false)), (String ((Ascii
+    (true, false, false, true, true, true, true, false)), (String ((Ascii
+    (false, false, false, false, true, true, true, false)), (String ((Ascii
+    (true, false, true, false, false, true, true, false)),
+    EmptyString)))))))))))))))))))))))))))), (enc_sem_ty (snd p))) :: []))
+
+(** val enc_ginstr : ginstr -> json **)
+
+let enc_ginstr = function
+| GTypes t ->
+  tagc (String ((Ascii (false, false, true, false, true, false, true,
+    false)), (String ((Ascii (true, false, false, true, true, true, true,
+    false)), (String ((Ascii (false, false, false, false, true, true, true,
+    false)), (String ((Ascii (true, false, true, false, false, true, true,
+    false)), (String ((Ascii (true, true, false, false, true, true, true,
+    false)), EmptyString)))))))))) (JObj (((String ((Ascii (false, false,
+    true, false, true, true, true, false)), (String ((Ascii (true, false,
+    false, true, true, true, true, false)), (String ((Ascii (false, false,
+    false, false, true, true, true, false)), (String ((Ascii (true, false,
+    true, false, false, true, true, false)), (String ((Ascii (true, true,
+    true, true, true, false, true, false)), (String ((Ascii (false, false,
+    true, false, false, true, true, false)), (String ((Ascii (true, false,
+    true, false, false, true, true, false)), (String ((Ascii (true, true,
+    false, false, false, true, true, false)), (String ((Ascii (false, false,
+    true, true, false, true, true, false)), EmptyString)))))))))))))))))),
+    (match t with
+     | SStruct (n0, attrs) -> enc_sstruct_body n0 attrs
+     | _ -> enc_sem_ty t)) :: []))
+| GConst c ->
+  tagc (String ((Ascii (true, true, false, false, false, false, true,
+    false)), (String ((Ascii (true, true, true, true, false, true, true,
+    false)), (String ((Ascii (false, true, true, true, false, true, true,
+    false)), (String ((Ascii (true, true, false, false, true, true, true,
+    false)), (String ((Ascii (false, false, true, false, true, true, true,
+    false)), (String ((Ascii (true, false, false, false, false, true, true,
+    false)), (String ((Ascii (false, true, true, true, false, true, true,
+    false)), (String ((Ascii (false, false, true, false, true, true, true,
+    false)), EmptyString)))))))))))))))) (JObj (((String ((Ascii (true, true,
+    false, false, false, true, true, false)), (String ((Ascii (true, true,
+    true, true, false, true, true, false)), (String ((Ascii (false, true,
+    true, true, false, true, true, false)), (String ((Ascii (true, true,
+    false, false, true, true, true, false)), (String ((Ascii (false, false,
+    true, false, true, true, true, false)), (String ((Ascii (true, true,
+    true, true, true, false, true, false)), (String ((Ascii (false, false,
+    true, false, false, true, true, false)), (String ((Ascii (true, false,
+    true, false, false, true, true, false)), (String ((Ascii (true, true,
+    false, false, false, true, true, false)), (String ((Ascii (false, false,
+    true, true, false, true, true, false)), EmptyString)))))))))))))))))))),
+    (enc_const_sem c)) :: []))
+| GFnDecl (n0, ps, r) ->
+  tagc (String ((Ascii (false, true, true, false, false, false, true,
+    false)), (String ((Ascii (true, false, true, false, true, true, true,
+    false)), (String ((Ascii (false, true, true, true, false, true, true,
+    false)), (String ((Ascii (true, true, false, false, false, true, true,
+    false)), (String ((Ascii (false, false, true, false, true, true, true,
+    false)), (String ((Ascii (true, false, false, true, false, true, true,
+    false)), (String ((Ascii (true, true, true, true, false, true, true,
+    false)), (String ((Ascii (false, true, true, true, false, true, true,
+    false)), (String ((Ascii (false, false, true, false, false, false, true,
+    false)), (String ((Ascii (true, false, true, false, false, true, true,
+    false)), (String ((Ascii (true, true, false, false, false, true, true,
+    false)), (String ((Ascii (false, false, true, true, false, true, true,
+    false)), (String ((Ascii (true, false, false, false, false, true, true,
+    false)), (String ((Ascii (false, true, false, false, true, true, true,
+    false)), (String ((Ascii (true, false, false, false, false, true, true,
+    false)), (String ((Ascii (false, false, true, false, true, true, true,
+    false)), (String ((Ascii (true, false, false, true, false, true, true,
+    false)), (String ((Ascii (true, true, true, true, false, true, true,
+    false)), (String ((Ascii (false, true, true, true, false, true, true,
+    false)), EmptyString)))))))))))))))))))))))))))))))))))))) (JObj
+    (((String ((Ascii (false, true, true, false, false, true, true, false)),
+    (String ((Ascii (false, true, true, true, false, true, true, false)),
+    (String ((Ascii (true, true, true, true, true, false, true, false)),
+    (String ((Ascii (false, false, true, false, false, true, true, false)),
+    (String ((Ascii (true, false, true, false, false, true, true, false)),
+    (String ((Ascii (true, true, false, false, false, true, true, false)),
+    (String ((Ascii (false, false, true, true, false, true, true, false)),
+    EmptyString)))))))))))))), (JObj (((String ((Ascii (false, true, true,
+    true, false, true, true, false)), (String ((Ascii (true, false, false,
+    false, false, true, true, false)), (String ((Ascii (true, false, true,
+    true, false, true, true, false)), (String ((Ascii (true, false, true,
+    false, false, true, true, false)), EmptyString)))))))), (JStr
+    n0)) :: (((String ((Ascii (false, false, false, false, true, true, true,
+    false)), (String ((Ascii (true, false, false, false, false, true, true,
+    false)), (String ((Ascii (false, true, false, false, true, true, true,
+    false)), (String ((Ascii (true, false, false, false, false, true, true,
+    false)), (String ((Ascii (true, false, true, true, false, true, true,
+    false)), (String ((Ascii (true, false, true, false, false, true, true,
+    false)), (String ((Ascii (false, false, true, false, true, true, true,
+    false)), (String ((Ascii (true, false, true, false, false, true, true,
+    false)), (String ((Ascii (false, true, false, false, true, true, true,
+    false)), (String ((Ascii (true, true, false, false, true, true, true,
+    false)), EmptyString)))))))))))))))))))), (JArr
+    (map enc_sparam ps))) :: (((String ((Ascii (false, true, false, false,
+    true, true, true, false)), (String ((Ascii (true, false, true, false,
+    false, true, true, false)), (String ((Ascii (true, true, false, false,
+    true, true, true, false)), (String ((Ascii (true, false, true, false,
+    true, true, true, false)), (String ((Ascii (false, false, true, true,
+    false, true, true, false)), (String ((Ascii (false, false, true, false,
+    true, true, true, false)), (String ((Ascii (true, true, true, true, true,
+    false, true, false)), (String ((Ascii (false, false, true, false, true,
+    true, true, false)), (String ((Ascii (true, false, false, true, true,
+    true, true, false)), (String ((Ascii (false, false, false, false, true,
+    true, true, false)), (String ((Ascii (true, false, true, false, false,
+    true, true, false)), EmptyString)))))))))))))))))))))),
+    (enc_sem_ty r)) :: []))))) :: []))
+
+(** val enc_gstack : ginstr list -> json **)
+
+let enc_gstack c =
+  JArr (map enc_ginstr c)
